@@ -46,7 +46,7 @@ Ltac bconv := repeat match goal with
   | H : negb _ = true |- _ => apply negb_true_iff in H
   | H : negb _ = false |- _ => apply negb_false_iff in H
   end.
-Ltac blia := bconv ; blia.
+Ltac blia := bconv; lia.
 
 (* ================================================================== tags *)
 Lemma get_tag_spec i : get_tag i = tag_spec i.
@@ -155,4 +155,1359 @@ Lemma all_nodes_map p kvs : all_nodes p (Map kvs) = true ->
 Proof.
   cbn [all_nodes]. intros H. apply andb_true_iff in H as [H1 H2]. split; [assumption|].
   apply forallb_Forall in H2. eapply Forall_impl; [|exact H2]. cbn. intros kv E. now apply andb_true_iff in E.
+Qed.
+
+(* ================================================================== bytes / integers *)
+Lemma be_min_fuel_length f : forall n k, n < 256 ^ N.of_nat k -> (length (be_min_fuel f n) <= k)%nat.
+Proof.
+  induction f as [|f IH]; intros n k H; cbn [be_min_fuel]; [cbn; lia|].
+  destruct (n =? 0) eqn:E; [cbn; lia|]. bconv.
+  rewrite app_length. cbn [length].
+  destruct k as [|k]; [cbn in H; lia|].
+  rewrite Nnat.Nat2N.inj_succ, N.pow_succ_r' in H.
+  assert (n / 256 < 256 ^ N.of_nat k) by (apply N.div_lt_upper_bound; lia).
+  specialize (IH _ _ H0). lia.
+Qed.
+
+Lemma unbe_be_min_fuel f : forall n, n < 256 ^ N.of_nat f -> unbe (be_min_fuel f n) = n.
+Proof.
+  induction f as [|f IH]; intros n H; cbn [be_min_fuel].
+  - cbn in H. cbn. lia.
+  - destruct (n =? 0) eqn:E; bconv; [subst; reflexivity|].
+    rewrite unbe_app. cbn. rewrite b2n_n2b.
+    rewrite Nnat.Nat2N.inj_succ, N.pow_succ_r' in H.
+    rewrite IH by (apply N.div_lt_upper_bound; lia).
+    pose proof (N.div_mod n 256). lia.
+Qed.
+
+Lemma lt_pow256_log2 n : n < 256 ^ N.of_nat (S (N.to_nat (N.log2 n))).
+Proof.
+  destruct (N.eq_dec n 0) as [->|Hn]; [cbn; lia|].
+  assert (Hp : 0 < n) by lia.
+  destruct (N.log2_spec n Hp) as [_ H].
+  eapply N.lt_le_trans; [exact H|].
+  rewrite Nnat.Nat2N.inj_succ, Nnat.N2Nat.id.
+  change 256 with (2 ^ 8). rewrite <- N.pow_mul_r.
+  apply N.pow_le_mono_r; lia.
+Qed.
+
+Lemma unbe_be_min n : unbe (be_min n) = n.
+Proof. unfold be_min. apply unbe_be_min_fuel, lt_pow256_log2. Qed.
+
+Lemma be_min_length n k : n < 256 ^ N.of_nat k -> (length (be_min n) <= k)%nat.
+Proof. unfold be_min. apply be_min_fuel_length. Qed.
+
+Lemma concat_chunks_fuel k : (0 < k)%nat -> forall f b, (length b < f)%nat -> concat (chunks_fuel f k b) = b.
+Proof.
+  intros Hk. induction f as [|f IH]; intros b H; [lia|].
+  cbn [chunks_fuel]. destruct b as [|x b]; [reflexivity|].
+  cbn [concat]. rewrite IH.
+  - apply firstn_skipn.
+  - rewrite skipn_length. cbn [length] in *. lia.
+Qed.
+
+Lemma concat_chunks b : concat (chunks 64 b) = b.
+Proof. unfold chunks. apply concat_chunks_fuel; lia. Qed.
+
+Lemma py_int_ref z : (- two512Z <= z < two512Z)%Z -> py_int z = ref_int z.
+Proof.
+  intros H. unfold py_int, ref_int.
+  destruct (0 <=? z)%Z eqn:A.
+  - destruct (z <? two64Z)%Z eqn:B; [reflexivity|]. f_equal. unfold ref_bytes.
+    assert (L : (length (be_min (Z.to_N z)) <= 64)%nat).
+    { apply be_min_length. bconv. unfold two512Z in H.
+      change (256 ^ N.of_nat 64) with (Z.to_N (2 ^ 512)). lia. }
+    destruct (length (be_min (Z.to_N z)) <=? 64)%nat eqn:E; [reflexivity | bconv; lia].
+  - destruct (- two64Z <=? z)%Z eqn:B; [reflexivity|]. f_equal. unfold ref_bytes.
+    assert (L : (length (be_min (Z.to_N (-1 - z))) <= 64)%nat).
+    { apply be_min_length. bconv. unfold two512Z in H.
+      change (256 ^ N.of_nat 64) with (Z.to_N (2 ^ 512)). lia. }
+    destruct (length (be_min (Z.to_N (-1 - z))) <=? 64)%nat eqn:E; [reflexivity | bconv; lia].
+Qed.
+
+Lemma py_int_small (i : N) : i < two64 -> py_int (Z.of_N i) = CU i.
+Proof.
+  intros H. unfold py_int. destruct (0 <=? Z.of_N i)%Z eqn:A; [|bconv; lia].
+  destruct (Z.of_N i <? two64Z)%Z eqn:B; [now rewrite N2Z.id|].
+  bconv. unfold two64Z, two64 in *. lia.
+Qed.
+
+(* loads inverts the reference integer / byte-string encodings *)
+Lemma loads_ref_bytes b : loads (ref_bytes b) = Ok (PBytes b).
+Proof. unfold ref_bytes. destruct (length b <=? 64)%nat; cbn [loads]; [reflexivity|]. now rewrite concat_chunks. Qed.
+
+Lemma loads_ref_int z : loads (ref_int z) = Ok (PInt z).
+Proof.
+  unfold ref_int. destruct (0 <=? z)%Z eqn:A.
+  - destruct (z <? two64Z)%Z eqn:B; cbn [loads].
+    + f_equal. f_equal. bconv. lia.
+    + change (2 =? 2) with true. cbv iota. unfold ref_bytes.
+      destruct (length (be_min (Z.to_N z)) <=? 64)%nat; rewrite ?concat_chunks, unbe_be_min; f_equal; f_equal; bconv; lia.
+  - destruct (- two64Z <=? z)%Z eqn:B; cbn [loads].
+    + f_equal. f_equal. bconv. lia.
+    + change (3 =? 2) with false. change (3 =? 3) with true. cbv iota. unfold ref_bytes.
+      destruct (length (be_min (Z.to_N (-1 - z))) <=? 64)%nat; rewrite ?concat_chunks, unbe_be_min; f_equal; f_equal; bconv; lia.
+Qed.
+
+(* ================================================================== induction principles, equality *)
+Section TyInd.
+  Variable P : ty -> Prop.
+  Hypothesis HInt : P TInt. Hypothesis HBytes : P TBytes. Hypothesis HBStr : P TBStr.
+  Hypothesis HList : forall t, P t -> P (TList t).
+  Hypothesis HDict : forall k v, P k -> P v -> P (TDict k v).
+  Hypothesis HCls : forall id fts, Forall P fts -> P (TCls id fts).
+  Hypothesis HUnion : forall ts, Forall P ts -> P (TUnion ts).
+  Hypothesis HIList : P TIList. Hypothesis HDatum : P TDatum.
+  Fixpoint ty_ind' (t : ty) : P t :=
+    match t with
+    | TInt => HInt | TBytes => HBytes | TBStr => HBStr
+    | TList t' => HList t' (ty_ind' t')
+    | TDict k v => HDict k v (ty_ind' k) (ty_ind' v)
+    | TCls id fts => HCls id fts ((fix go (l : list ty) : Forall P l :=
+                        match l with [] => Forall_nil _ | y :: r => Forall_cons _ (ty_ind' y) (go r) end) fts)
+    | TUnion ts => HUnion ts ((fix go (l : list ty) : Forall P l :=
+                        match l with [] => Forall_nil _ | y :: r => Forall_cons _ (ty_ind' y) (go r) end) ts)
+    | TIList => HIList | TDatum => HDatum
+    end.
+End TyInd.
+
+Section PvInd.
+  Variable P : pv -> Prop.
+  Hypothesis HInt : forall z, P (PInt z).
+  Hypothesis HBytes : forall b, P (PBytes b).
+  Hypothesis HBStr : forall b, P (PBStr b).
+  Hypothesis HList : forall xs, Forall P xs -> P (PList xs).
+  Hypothesis HIList : forall xs, Forall P xs -> P (PIList xs).
+  Hypothesis HDict : forall kvs, Forall (fun kv => P (fst kv) /\ P (snd kv)) kvs -> P (PDict kvs).
+  Hypothesis HTag : forall t v, P v -> P (PTag t v).
+  Hypothesis HObj : forall id fts fs, Forall P fs -> P (PObj id fts fs).
+  Hypothesis HRaw : forall v, P v -> P (PRaw v).
+  Fixpoint pv_ind' (v : pv) : P v :=
+    match v with
+    | PInt z => HInt z | PBytes b => HBytes b | PBStr b => HBStr b
+    | PList xs => HList xs ((fix go (l : list pv) : Forall P l :=
+                     match l with [] => Forall_nil _ | y :: r => Forall_cons _ (pv_ind' y) (go r) end) xs)
+    | PIList xs => HIList xs ((fix go (l : list pv) : Forall P l :=
+                     match l with [] => Forall_nil _ | y :: r => Forall_cons _ (pv_ind' y) (go r) end) xs)
+    | PDict kvs => HDict kvs ((fix go (l : list (pv * pv)) : Forall (fun kv => P (fst kv) /\ P (snd kv)) l :=
+                     match l with
+                     | [] => Forall_nil _
+                     | kv :: r => Forall_cons _ (conj (pv_ind' (fst kv)) (pv_ind' (snd kv))) (go r)
+                     end) kvs)
+    | PTag t x => HTag t x (pv_ind' x)
+    | PObj id fts fs => HObj id fts fs ((fix go (l : list pv) : Forall P l :=
+                     match l with [] => Forall_nil _ | y :: r => Forall_cons _ (pv_ind' y) (go r) end) fs)
+    | PRaw w => HRaw w (pv_ind' w)
+    end.
+End PvInd.
+
+Lemma list_eqb_sound {A} (f : A -> A -> bool) l :
+  Forall (fun x => forall y, f x y = true -> x = y) l -> forall l', list_eqb f l l' = true -> l = l'.
+Proof.
+  induction 1 as [|x l Hx _ IH]; intros [|y l'] E; cbn in E; try discriminate; [reflexivity|].
+  apply andb_true_iff in E as [E1 E2]. f_equal; auto.
+Qed.
+
+Lemma list_eqb_refl {A} (f : A -> A -> bool) l : Forall (fun x => f x x = true) l -> list_eqb f l l = true.
+Proof. induction 1; cbn; [reflexivity|]. now rewrite H, IHForall. Qed.
+
+Lemma ty_eqb_sound : forall a b, ty_eqb a b = true -> a = b.
+Proof.
+  induction a as [| | |t IH|k v IHk IHv|id fts IH|ts IH| |] using ty_ind'; intros [| | |t'|k' v'|id' fts'|ts'| |] E;
+    cbn in E; try discriminate; try reflexivity.
+  - f_equal; auto.
+  - apply andb_true_iff in E as [E1 E2]. f_equal; auto.
+  - apply andb_true_iff in E as [E1 E2]. bconv. subst. f_equal. eapply list_eqb_sound; eauto.
+  - f_equal. eapply list_eqb_sound; eauto.
+Qed.
+
+Lemma pv_eqb_sound : forall a b, pv_eqb a b = true -> a = b.
+Proof.
+  induction a as [z|b|b|xs IH|xs IH|kvs IH|t v IH|id fts fs IH|v IH] using pv_ind';
+    intros [z'|b'|b'|xs'|xs'|kvs'|t' v'|id' fts' fs'|v'] E; cbn in E; try discriminate.
+  - bconv. now subst.
+  - apply bytes_eqb_eq in E. now subst.
+  - apply bytes_eqb_eq in E. now subst.
+  - f_equal. eapply list_eqb_sound; eauto.
+  - f_equal. eapply list_eqb_sound; eauto.
+  - f_equal. eapply list_eqb_sound; [|exact E].
+    eapply Forall_impl; [|exact IH]. cbn. intros [k w] [Hk Hw] [k' w'] F. cbn in *.
+    apply andb_true_iff in F as [F1 F2]. f_equal; auto.
+  - apply andb_true_iff in E as [E1 E2]. bconv. subst. f_equal; auto.
+  - apply andb_true_iff in E as [E1 E3]. apply andb_true_iff in E1 as [E1 E2]. bconv. subst.
+    f_equal.
+    + eapply list_eqb_sound; [|exact E2]. apply Forall_forall. intros x _ y. apply ty_eqb_sound.
+    + eapply list_eqb_sound; eauto.
+  - f_equal; auto.
+Qed.
+
+Lemma data_eqb_refl : forall d, data_eqb d d = true.
+Proof.
+  induction d as [i fs IH|kvs IH|xs IH|z|b] using data_ind'; cbn.
+  - rewrite N.eqb_refl. cbn. now apply list_eqb_refl.
+  - apply list_eqb_refl. eapply Forall_impl; [|exact IH]. cbn. intros kv [H1 H2]. now rewrite H1, H2.
+  - now apply list_eqb_refl.
+  - apply Z.eqb_refl.
+  - apply bytes_eqb_refl.
+Qed.
+
+(* ================================================================== Python dicts *)
+Fixpoint kdistinct (l : list (pv * pv)) : Prop :=
+  match l with
+  | [] => True
+  | kv :: r => Forall (fun x => pv_eqb (fst kv) (fst x) = false) r /\ kdistinct r
+  end.
+
+Lemma dict_set_fresh d k v : Forall (fun kv => pv_eqb (fst kv) k = false) d -> dict_set d k v = d ++ [(k, v)].
+Proof. induction 1 as [|kv d H _ IH]; cbn; [reflexivity|]. now rewrite H, IH. Qed.
+
+Lemma dict_fold_distinct l : forall acc,
+  (forall a b, In a acc -> In b l -> pv_eqb (fst a) (fst b) = false) -> kdistinct l ->
+  fold_left (fun d kv => dict_set d (fst kv) (snd kv)) l acc = acc ++ l.
+Proof.
+  induction l as [|[k v] l IH]; intros acc H D; cbn [fold_left fst snd]; [now rewrite app_nil_r|].
+  destruct D as [D1 D2].
+  rewrite dict_set_fresh.
+  - rewrite IH; [now rewrite <- app_assoc| |assumption].
+    intros a b Ha Hb. apply in_app_or in Ha as [Ha|[<-|[]]].
+    + apply H; [assumption | now right].
+    + cbn. rewrite Forall_forall in D1. now apply D1.
+  - apply Forall_forall. intros a Ha. apply (H a (k, v)); [assumption | now left].
+Qed.
+
+Lemma dict_of_list_distinct l : kdistinct l -> dict_of_list l = l.
+Proof. intros D. unfold dict_of_list. rewrite dict_fold_distinct; [reflexivity| intros a b [] | assumption]. Qed.
+
+Lemma kdistinct_map (F G : data -> pv) kvs :
+  (forall a b, pv_eqb (F a) (F b) = true -> a = b) ->
+  nodupb data_eqb (map fst kvs) = true ->
+  kdistinct (map (fun kv => (F (fst kv), G (snd kv))) kvs).
+Proof.
+  intros Inj. induction kvs as [|[k v] kvs IH]; cbn [map nodupb kdistinct fst snd]; [trivial|].
+  intros H. apply andb_true_iff in H as [H1 H2]. split; [|auto].
+  apply Forall_forall. intros x Hx. apply in_map_iff in Hx as ([k' v'] & <- & Hin). cbn [fst snd].
+  destruct (pv_eqb (F k) (F k')) eqn:E; [|reflexivity].
+  apply Inj in E. subst k'. apply negb_true_iff in H1.
+  assert (X : existsb (data_eqb k) (map fst kvs) = true).
+  { apply existsb_exists. exists k. split; [|apply data_eqb_refl]. apply in_map_iff. now exists (k, v'). }
+  congruence.
+Qed.
+
+(* ================================================================== abstraction inverts the canonical shapes *)
+Lemma unlist_seqv xs : unlist (abs (seqv xs)) = map abs xs.
+Proof. destruct xs; reflexivity. Qed.
+
+Lemma abs_seqv xs : abs (seqv xs) = List (map abs xs).
+Proof. destruct xs; reflexivity. Qed.
+
+Lemma abs_tagged i (v : pv) :
+  abs (match tag_spec i with Some t => PTag t v | None => PTag 102 (PList [PInt (Z.of_N i); v]) end)
+  = Constr i (unlist (abs v)).
+Proof.
+  destruct (tag_spec i) as [t|] eqn:E; cbn [abs].
+  - destruct (tag_spec_ranges _ _ E) as [_ Hne]. destruct (t =? 102) eqn:Q; [bconv; contradiction|].
+    now rewrite (untag_id_tag _ _ E).
+  - change (102 =? 102) with true. cbv iota. now rewrite N2Z.id.
+Qed.
+
+Lemma abs_raw_canon : forall d, abs (raw_canon d) = d.
+Proof.
+  induction d as [i fs IH|kvs IH|xs IH|z|b] using data_ind'; cbn [raw_canon].
+  - rewrite abs_tagged, unlist_seqv, map_map. f_equal. now apply map_id_Forall.
+  - cbn [abs]. rewrite map_map. cbn [fst snd]. f_equal. apply map_id_Forall.
+    eapply Forall_impl; [|exact IH]. cbn. intros [k v] [H1 H2]. cbn in *. now rewrite H1, H2.
+  - rewrite abs_seqv, map_map. f_equal. now apply map_id_Forall.
+  - reflexivity.
+  - destruct (length b <=? 64)%nat; reflexivity.
+Qed.
+
+Lemma abs_raw_dec : forall d, abs (raw_dec d) = d.
+Proof.
+  induction d as [i fs IH|kvs IH|xs IH|z|b] using data_ind'; cbn [raw_dec].
+  - rewrite abs_tagged, unlist_seqv, map_map. f_equal. now apply map_id_Forall.
+  - cbn [abs]. rewrite map_map. cbn [fst snd]. f_equal. apply map_id_Forall.
+    eapply Forall_impl; [|exact IH]. cbn. intros [k v] [H1 H2]. cbn in *. now rewrite H1, H2.
+  - rewrite abs_seqv, map_map. f_equal. now apply map_id_Forall.
+  - reflexivity.
+  - reflexivity.
+Qed.
+
+Lemma abs_raw_json : forall d, abs (raw_json d) = d.
+Proof.
+  induction d as [i fs IH|kvs IH|xs IH|z|b] using data_ind'; cbn [raw_json].
+  - destruct (tag_spec i) as [t|] eqn:E; cbn [abs].
+    + destruct (tag_spec_ranges _ _ E) as [_ Hne]. destruct (t =? 102) eqn:Q; [bconv; contradiction|].
+      rewrite (untag_id_tag _ _ E). cbn [unlist]. rewrite map_map. f_equal. now apply map_id_Forall.
+    + change (102 =? 102) with true. cbv iota. rewrite N2Z.id. cbn [abs unlist]. rewrite map_map. f_equal.
+      now apply map_id_Forall.
+  - cbn [abs]. rewrite map_map. cbn [fst snd]. f_equal. apply map_id_Forall.
+    eapply Forall_impl; [|exact IH]. cbn. intros [k v] [H1 H2]. cbn in *. now rewrite H1, H2.
+  - cbn [abs]. rewrite map_map. f_equal. now apply map_id_Forall.
+  - reflexivity.
+  - destruct (32 <? length b)%nat; reflexivity.
+Qed.
+
+Lemma inj_of_abs (F : data -> pv) : (forall d, abs (F d) = d) -> forall a b, pv_eqb (F a) (F b) = true -> a = b.
+Proof. intros H a b E. apply pv_eqb_sound in E. rewrite <- (H a), <- (H b). now rewrite E. Qed.
+
+(* ================================================================== decode after encode *)
+Lemma head_len_pos m n : (1 <= length (head m n))%nat.
+Proof.
+  unfold head. destruct (n <? 24); [cbn; lia|]. destruct (n <? 256); [cbn; lia|].
+  destruct (n <? 65536); [cbn; lia|]. destruct (n <? 4294967296); cbn; lia.
+Qed.
+
+Lemma sz_bound : forall x, (sz x + 1 <= 3 * length (enc x))%nat.
+Proof.
+  assert (SEQ : forall xs, Forall (fun x => (sz x + 1 <= 3 * length (enc x))%nat) xs ->
+                (list_sum (map sz xs) + length xs <= 3 * length (concat (map enc xs)))%nat).
+  { induction 1 as [|x xs H _ IH]; cbn [map list_sum fold_right concat length]; [lia|]. rewrite app_length. unfold list_sum in *. lia. }
+  induction x as [n|n|b|cs|b|xs IH|xs IH|kvs IH|t y IH|v] using cbor_ind'; cbn [sz enc].
+  - pose proof (head_len_pos 0 n). lia.
+  - pose proof (head_len_pos 1 n). lia.
+  - rewrite app_length. pose proof (head_len_pos 2 (lenN b)). lia.
+  - cbn [length]. rewrite app_length. cbn [length].
+    assert (length cs <= length (concat (map enc_chunk cs)))%nat.
+    { induction cs as [|c cs IHc]; cbn [map concat length]; [lia|]. rewrite app_length. unfold enc_chunk at 1.
+      rewrite app_length. pose proof (head_len_pos 2 (lenN c)). lia. }
+    lia.
+  - rewrite app_length. pose proof (head_len_pos 3 (lenN b)). lia.
+  - rewrite app_length. pose proof (head_len_pos 4 (lenN xs)). specialize (SEQ _ IH). lia.
+  - cbn [length]. rewrite app_length. cbn [length]. specialize (SEQ _ IH). lia.
+  - rewrite app_length.
+    assert (list_sum (map (fun kv => (sz (fst kv) + sz (snd kv))%nat) kvs) + length kvs
+            <= 3 * length (concat (map (fun kv => enc (fst kv) ++ enc (snd kv)) kvs)))%nat.
+    { induction IH as [|kv kvs [Hk Hv] _ IHk]; cbn [map list_sum fold_right concat length]; [lia|]. rewrite !app_length. unfold list_sum in *. cbn [fst snd] in *. lia. }
+    pose proof (head_len_pos 5 (lenN kvs)). lia.
+  - rewrite app_length. pose proof (head_len_pos 6 t). lia.
+  - cbn. lia.
+Qed.
+
+Lemma decode_enc x : wf x -> decode_res (enc x) = Ok x.
+Proof.
+  intros W. unfold decode_res.
+  pose proof (dec_enc x W (3 * length (enc x))%nat [] ltac:(pose proof (sz_bound x); lia)) as H.
+  rewrite app_nil_r in H. now rewrite H.
+Qed.
+
+(* ================================================================== raw data: canonical shape encodes to plutus_ref *)
+Lemma mapM_map2 {A B C} (f : B -> res C) (F : A -> B) (G : A -> C) l :
+  Forall (fun a => f (F a) = Ok (G a)) l -> mapM f (map F l) = Ok (map G l).
+Proof. induction 1 as [|x l H _ IH]; cbn; [reflexivity|]. now rewrite H, IH. Qed.
+
+Lemma dumps_seqv_map {A} (F : A -> pv) (G : A -> cbor) l :
+  Forall (fun a => dumps (F a) = Ok (G a)) l -> dumps (seqv (map F l)) = Ok (ref_seq (map G l)).
+Proof.
+  intros H. destruct l as [|a l]; [reflexivity|].
+  change (seqv (map F (a :: l))) with (PIList (map F (a :: l))). cbn [dumps].
+  rewrite (mapM_map2 _ _ G) by assumption. reflexivity.
+Qed.
+
+Lemma dumps_pairs {A} (F1 F2 : A -> pv) (G1 G2 : A -> cbor) l :
+  Forall (fun a => dumps (F1 a) = Ok (G1 a) /\ dumps (F2 a) = Ok (G2 a)) l ->
+  mapM (fun kv => do k <- dumps (fst kv); do w <- dumps (snd kv); Ok (k, w)) (map (fun a => (F1 a, F2 a)) l)
+  = Ok (map (fun a => (G1 a, G2 a)) l).
+Proof.
+  intros H. apply mapM_map2. eapply Forall_impl; [|exact H]. cbn. intros a [H1 H2]. now rewrite H1, H2.
+Qed.
+
+Lemma dumps_tagged i v c : i < two64 -> dumps v = Ok c ->
+  dumps (match tag_spec i with Some t => PTag t v | None => PTag 102 (PList [PInt (Z.of_N i); v]) end)
+  = Ok (match tag_spec i with Some t => CTag t c | None => CTag 102 (CA [CU i; c]) end).
+Proof.
+  intros Hi H. destruct (tag_spec i); cbn [dumps mapM bind]; rewrite H; cbn [bind]; [reflexivity|].
+  now rewrite py_int_small.
+Qed.
+
+Lemma dumps_bytes_canon b : dumps (if (length b <=? 64)%nat then PBytes b else PBStr b) = Ok (ref_bytes b).
+Proof.
+  unfold ref_bytes. destruct (length b <=? 64)%nat eqn:E; cbn [dumps]; [reflexivity|].
+  destruct (64 <? length b)%nat eqn:F; [reflexivity | bconv; lia].
+Qed.
+
+Lemma dumps_canon : forall d, ints_ok d = true -> dumps (raw_canon d) = Ok (plutus_ref d).
+Proof.
+  unfold ints_ok.
+  induction d as [i fs IH|kvs IH|xs IH|z|b] using data_ind'; intros H.
+  - apply all_nodes_constr in H as [Hn Hf]. cbn [n_int_ok] in Hn. bconv.
+    cbn [raw_canon plutus_ref]. apply dumps_tagged; [assumption|].
+    apply dumps_seqv_map. exact (Forall_mp _ _ _ IH Hf).
+  - apply all_nodes_map in H as [_ Hf]. cbn [raw_canon plutus_ref dumps].
+    rewrite (dumps_pairs _ _ (fun kv => plutus_ref (fst kv)) (fun kv => plutus_ref (snd kv))); [reflexivity|].
+    clear -IH Hf. induction IH as [|kv kvs [H1 H2] _ IHk]; inversion Hf as [|? ? [G1 G2] Hf']; subst; constructor; auto.
+  - apply all_nodes_list in H as [_ Hf]. cbn [raw_canon plutus_ref].
+    apply dumps_seqv_map. exact (Forall_mp _ _ _ IH Hf).
+  - cbn [all_nodes n_int_ok] in H. cbn [raw_canon plutus_ref dumps]. f_equal. apply py_int_ref. bconv. lia.
+  - cbn [raw_canon plutus_ref]. apply dumps_bytes_canon.
+Qed.
+
+(* Python-side normalisers are the identity on the canonical shape (given distinct keys) *)
+Lemma seqv_map_id (f : pv -> pv) xs : Forall (fun x => f x = x) xs -> map f xs = xs.
+Proof. apply map_id_Forall. Qed.
+
+Section IdOnCanon.
+  (* any f that maps over lists/dicts/tags the way pynorm, to_prim and r_to_prim do on canonical shapes *)
+  Variable f : pv -> pv.
+  Hypothesis f_int : forall z, f (PInt z) = PInt z.
+  Hypothesis f_bytes : forall b, f (PBytes b) = PBytes b.
+  Hypothesis f_bstr : forall b, f (PBStr b) = PBStr b.
+  Hypothesis f_nil : f (PList []) = PList [].
+  Hypothesis f_ilist : forall xs, Forall (fun x => f x = x) xs -> f (PIList xs) = PIList xs.
+  Hypothesis f_dict : forall kvs, Forall (fun kv => f (fst kv) = fst kv /\ f (snd kv) = snd kv) kvs ->
+                                  kdistinct kvs -> f (PDict kvs) = PDict kvs.
+  Hypothesis f_tag : forall t v, t <> 102 -> f v = v -> (forall x r, v <> PList (x :: r)) -> f (PTag t v) = PTag t v.
+  Hypothesis f_tag102 : forall i v, f v = v -> f (PTag 102 (PList [PInt i; v])) = PTag 102 (PList [PInt i; v]).
+
+  Lemma f_seqv xs : Forall (fun x => f x = x) xs -> f (seqv xs) = seqv xs.
+  Proof. intros H. destruct xs; [exact f_nil | now apply f_ilist]. Qed.
+
+  Lemma id_on_canon : forall d, nodup_keys d = true -> f (raw_canon d) = raw_canon d.
+  Proof.
+    unfold nodup_keys.
+    induction d as [i fs IH|kvs IH|xs IH|z|b] using data_ind'; intros H.
+    - apply all_nodes_constr in H as [_ Hf]. cbn [raw_canon].
+      assert (E : f (seqv (map raw_canon fs)) = seqv (map raw_canon fs)).
+      { apply f_seqv. apply Forall_map. exact (Forall_mp _ _ _ IH Hf). }
+      destruct (tag_spec i) as [t|] eqn:T.
+      + apply f_tag; [apply (tag_spec_ranges _ _ T) | exact E|]. intros x r. destruct fs; discriminate.
+      + now apply f_tag102.
+    - apply all_nodes_map in H as [Hn Hf]. cbn [raw_canon]. apply f_dict.
+      + apply Forall_map. cbn [fst snd]. clear -IH Hf.
+        induction IH as [|kv kvs [H1 H2] _ IHk]; inversion Hf as [|? ? [G1 G2] Hf']; subst; constructor; auto.
+      + apply kdistinct_map; [apply inj_of_abs, abs_raw_canon | exact Hn].
+    - apply all_nodes_list in H as [_ Hf]. cbn [raw_canon]. apply f_seqv. apply Forall_map. exact (Forall_mp _ _ _ IH Hf).
+    - apply f_int.
+    - cbn [raw_canon]. destruct (length b <=? 64)%nat; [apply f_bytes | apply f_bstr].
+  Qed.
+End IdOnCanon.
+
+Lemma pynorm_canon d : nodup_keys d = true -> pynorm (raw_canon d) = raw_canon d.
+Proof.
+  apply id_on_canon; try reflexivity.
+  - intros xs H. cbn [pynorm]. now rewrite map_id_Forall.
+  - intros kvs H D. cbn [pynorm]. rewrite (map_id_Forall (fun kv => (pynorm (fst kv), pynorm (snd kv)))).
+    + now rewrite dict_of_list_distinct.
+    + eapply Forall_impl; [|exact H]. cbn. intros [k v] [H1 H2]. cbn in *. now rewrite H1, H2.
+  - intros t v _ E _. cbn [pynorm]. now rewrite E.
+  - intros i v E. cbn [pynorm map]. now rewrite E.
+Qed.
+
+Lemma to_prim_canon d : nodup_keys d = true -> to_prim (raw_canon d) = raw_canon d.
+Proof.
+  apply id_on_canon; try reflexivity.
+  - intros xs H. cbn [to_prim]. now rewrite map_id_Forall.
+  - intros kvs H D. cbn [to_prim]. rewrite (map_id_Forall (fun kv => (to_prim (fst kv), to_prim (snd kv)))).
+    + now rewrite dict_of_list_distinct.
+    + eapply Forall_impl; [|exact H]. cbn. intros [k v] [H1 H2]. cbn in *. now rewrite H1, H2.
+  - intros t v _ E _. cbn [to_prim]. now rewrite E.
+  - intros i v E. cbn [to_prim map]. now rewrite E.
+Qed.
+
+Lemma r_to_prim_canon d : nodup_keys d = true -> r_to_prim (raw_canon d) = raw_canon d.
+Proof.
+  apply id_on_canon; try reflexivity.
+  - intros kvs H D. cbn [r_to_prim]. rewrite (map_id_Forall (fun kv => (r_to_prim (fst kv), r_to_prim (snd kv)))).
+    + now rewrite dict_of_list_distinct.
+    + eapply Forall_impl; [|exact H]. cbn. intros [k v] [H1 H2]. cbn in *. now rewrite H1, H2.
+  - intros t v _ E N. cbn [r_to_prim]. destruct v as [| | |[|x r]| | | | |]; try reflexivity. exfalso. eapply N. reflexivity.
+  - intros i v E. cbn [r_to_prim]. change (102 =? 102) with true. cbv iota. cbn [map r_to_prim]. now rewrite E.
+Qed.
+
+(* C18 (raw build): RawPlutusData over the canonical Python shape encodes to the reference bytes *)
+Lemma raw_build_canon d :
+  ints_ok d = true -> nodup_keys d = true -> atom_keys d = true ->
+  top_bytes_le 64 d = true -> top_not_empty_list d = true ->
+  to_cbor (PRaw (pynorm (raw_canon d))) = Ok (plutus_bytes d).
+Proof.
+  intros Hi Hn _ Hb Hl. rewrite pynorm_canon by assumption. unfold to_cbor.
+  assert (V : validate (PRaw (raw_canon d)) = true).
+  { cbn [validate]. destruct d as [i fs|kvs|[|x xs]|z|b]; cbn [raw_canon]; try reflexivity; try discriminate.
+    - destruct (tag_spec i); reflexivity.
+    - cbn in Hb. now rewrite Hb. }
+  rewrite V. cbn [to_prim]. rewrite r_to_prim_canon, dumps_canon by assumption. reflexivity.
+Qed.
+
+(* ================================================================== raw data: decode *)
+Lemma loads_seqv_map {A} (F : A -> pv) (G : A -> cbor) l :
+  Forall (fun a => loads (G a) = Ok (F a)) l -> loads (ref_seq (map G l)) = Ok (seqv (map F l)).
+Proof.
+  intros H. destruct l as [|a l]; [reflexivity|].
+  change (ref_seq (map G (a :: l))) with (CAi (map G (a :: l))). cbn [loads].
+  rewrite (mapM_map2 _ _ F) by assumption. reflexivity.
+Qed.
+
+Lemma hollow_hashable k : hollow k = true -> hashable true (raw_dec k) = true.
+Proof.
+  destruct k as [i [|f fs]|kvs|[|x xs]|z|b]; cbn; try discriminate; try reflexivity.
+  intros _. destruct (tag_spec i); reflexivity.
+Qed.
+
+Lemma loads_ref : forall d, hollow_keys d = true -> nodup_keys d = true -> loads (plutus_ref d) = Ok (raw_dec d).
+Proof.
+  unfold hollow_keys, nodup_keys.
+  induction d as [i fs IH|kvs IH|xs IH|z|b] using data_ind'; intros Hh Hn.
+  - apply all_nodes_constr in Hh as [_ Hf]. apply all_nodes_constr in Hn as [_ Hg].
+    assert (E : loads (ref_seq (map plutus_ref fs)) = Ok (seqv (map raw_dec fs))).
+    { apply loads_seqv_map. exact (Forall_mp _ _ _ (Forall_mp _ _ _ IH Hf) Hg). }
+    cbn [plutus_ref raw_dec]. destruct (tag_spec i) as [t|] eqn:T.
+    + cbn [loads]. pose proof (tag_spec_ranges _ _ T) as [R _].
+      destruct (t =? 2) eqn:Q2; [bconv; lia|]. destruct (t =? 3) eqn:Q3; [bconv; lia|].
+      now rewrite E.
+    + cbn [loads mapM]. change (102 =? 2) with false. change (102 =? 3) with false. cbv iota.
+      cbn [loads mapM bind]. now rewrite E.
+  - apply all_nodes_map in Hh as [Hk Hf]. apply all_nodes_map in Hn as [Hd Hg].
+    cbn [plutus_ref raw_dec loads].
+    rewrite (mapM_map2 _ _ (fun kv => (raw_dec (fst kv), raw_dec (snd kv)))).
+    + cbn [bind]. rewrite dict_of_list_distinct; [reflexivity|].
+      apply kdistinct_map; [apply inj_of_abs, abs_raw_dec | exact Hd].
+    + cbn [n_hollow_keys] in Hk. rewrite forallb_Forall in Hk. clear Hd.
+      induction IH as [|kv kvs [H1 H2] _ IHk]; inversion Hf as [|? ? [F1 F2] Hf']; inversion Hg as [|? ? [G1 G2] Hg'];
+        inversion Hk as [|? ? K1 Hk']; subst; constructor; auto.
+      cbn [fst snd]. rewrite H1, H2 by assumption. cbn [bind]. now rewrite hollow_hashable.
+  - apply all_nodes_list in Hh as [_ Hf]. apply all_nodes_list in Hn as [_ Hg].
+    cbn [plutus_ref raw_dec]. apply loads_seqv_map. exact (Forall_mp _ _ _ (Forall_mp _ _ _ IH Hf) Hg).
+  - apply loads_ref_int.
+  - apply loads_ref_bytes.
+Qed.
+
+Lemma raw_dec_canon : forall d, no_long_bytes d = true -> raw_dec d = raw_canon d.
+Proof.
+  unfold no_long_bytes.
+  induction d as [i fs IH|kvs IH|xs IH|z|b] using data_ind'; intros H.
+  - apply all_nodes_constr in H as [_ Hf]. cbn [raw_dec raw_canon].
+    now rewrite (map_ext_Forall raw_dec raw_canon fs (Forall_mp _ _ _ IH Hf)).
+  - apply all_nodes_map in H as [_ Hf]. cbn [raw_dec raw_canon]. f_equal. apply map_ext_Forall.
+    clear -IH Hf. induction IH as [|kv kvs [H1 H2] _ IHk]; inversion Hf as [|? ? [G1 G2] Hf']; subst; constructor; auto.
+    now rewrite H1, H2.
+  - apply all_nodes_list in H as [_ Hf]. cbn [raw_dec raw_canon].
+    now rewrite (map_ext_Forall raw_dec raw_canon xs (Forall_mp _ _ _ IH Hf)).
+  - reflexivity.
+  - cbn [all_nodes n_short_bytes] in H. cbn [raw_dec raw_canon]. rewrite andb_true_r in H. now rewrite H.
+Qed.
+
+Lemma raw_datum_ok_dec d : top_not_empty_list d = true -> raw_datum_ok (raw_dec d) = true.
+Proof.
+  destruct d as [i fs|kvs|[|x xs]|z|b]; cbn; try reflexivity; try discriminate.
+  intros _. destruct (tag_spec i); reflexivity.
+Qed.
+
+Lemma raw_from_cbor_ref d :
+  wf (plutus_ref d) -> top_not_empty_list d = true -> hollow_keys d = true -> nodup_keys d = true ->
+  raw_from_cbor (plutus_bytes d) = Ok (PRaw (raw_dec d)).
+Proof.
+  intros W Ht Hh Hn. unfold raw_from_cbor, plutus_bytes. rewrite decode_enc by assumption. cbn [bind].
+  rewrite loads_ref by assumption. cbn [bind]. unfold raw_from_prim. now rewrite raw_datum_ok_dec.
+Qed.
+
+(* C18_raw_reenc: decode the canonical bytes, encode again *)
+Lemma raw_reenc d :
+  wf (plutus_ref d) -> top_not_empty_list d = true -> hollow_keys d = true -> nodup_keys d = true ->
+  ints_ok d = true -> no_long_bytes d = true ->
+  m_dec d = Ok (plutus_bytes d).
+Proof.
+  intros W Ht Hh Hn Hi Hl. unfold m_dec. rewrite raw_from_cbor_ref by assumption. cbn [bind].
+  unfold to_cbor. cbn [validate]. rewrite raw_datum_ok_dec by assumption.
+  cbn [to_prim]. rewrite raw_dec_canon, r_to_prim_canon, dumps_canon by assumption. reflexivity.
+Qed.
+
+(* ================================================================== JSON form *)
+Lemma r_dict_tag_seq t i xs js :
+  untag t (lenN xs) = UWhole i -> mapM r_dict xs = Ok js -> r_dict (PTag t (seqv xs)) = Ok (JCon i js).
+Proof. intros U M. destruct xs; cbn [seqv r_dict]; rewrite U, M; reflexivity. Qed.
+
+Lemma r_dict_dec : forall d, no_list_keys d = true -> r_dict (raw_dec d) = Ok (json_of d).
+Proof.
+  unfold no_list_keys.
+  induction d as [i fs IH|kvs IH|xs IH|z|b] using data_ind'; intros H.
+  - apply all_nodes_constr in H as [_ Hf].
+    assert (M : mapM r_dict (map raw_dec fs) = Ok (map json_of fs)).
+    { apply mapM_map2. exact (Forall_mp _ _ _ IH Hf). }
+    cbn [raw_dec json_of]. destruct (tag_spec i) as [t|] eqn:T.
+    + apply r_dict_tag_seq; [now apply untag_tag | exact M].
+    + cbn [r_dict]. change (untag 102 (lenN [PInt (Z.of_N i); seqv (map raw_dec fs)])) with UPair. cbv iota.
+      destruct fs as [|f fs]; cbn [map seqv]; cbn [map] in M.
+      * destruct (Z.of_N i <? 0)%Z eqn:Q; [bconv; lia|]. cbn [mapM bind]. now rewrite N2Z.id.
+      * destruct (Z.of_N i <? 0)%Z eqn:Q; [bconv; lia|]. rewrite M. cbn [bind]. now rewrite N2Z.id.
+  - apply all_nodes_map in H as [Hk Hf]. cbn [raw_dec json_of r_dict].
+    rewrite (mapM_map2 _ _ (fun kv => (json_of (fst kv), json_of (snd kv)))); [reflexivity|].
+    cbn [n_no_list_keys] in Hk. rewrite forallb_Forall in Hk.
+    induction IH as [|kv kvs [H1 H2] _ IHk]; inversion Hf as [|? ? [F1 F2] Hf']; inversion Hk as [|? ? K1 Hk'];
+      subst; constructor; auto.
+    cbn [fst snd]. rewrite H2 by assumption. cbn [bind].
+    assert (E : match raw_dec (fst kv) with PList _ => Err E_Type | _ => r_dict (raw_dec (fst kv)) end
+                = r_dict (raw_dec (fst kv))).
+    { destruct (fst kv) as [i fs|kvs'|xs|z|b]; cbn [raw_dec]; try reflexivity; [|discriminate].
+      destruct (tag_spec i); reflexivity. }
+    rewrite E, H1 by assumption. reflexivity.
+  - apply all_nodes_list in H as [_ Hf]. cbn [raw_dec json_of].
+    assert (M : mapM r_dict (map raw_dec xs) = Ok (map json_of xs)).
+    { apply mapM_map2. exact (Forall_mp _ _ _ IH Hf). }
+    destruct xs as [|x xs]; [reflexivity|]. cbn [seqv map]. cbn [map] in M. cbn [r_dict]. now rewrite M.
+  - reflexivity.
+  - reflexivity.
+Qed.
+
+Lemma r_to_prim_dec d : nodup_keys d = true -> no_long_bytes d = true -> r_to_prim (raw_dec d) = raw_dec d.
+Proof. intros Hn Hl. rewrite raw_dec_canon by assumption. now apply r_to_prim_canon. Qed.
+
+(* r_to_prim is the identity on decoded shapes also when long byte strings are present *)
+Lemma r_to_prim_dec' : forall d, nodup_keys d = true -> r_to_prim (raw_dec d) = raw_dec d.
+Proof.
+  unfold nodup_keys.
+  induction d as [i fs IH|kvs IH|xs IH|z|b] using data_ind'; intros H.
+  - cbn [raw_dec]. destruct (tag_spec i) as [t|] eqn:T.
+    + destruct fs; reflexivity.
+    + cbn [r_to_prim]. change (102 =? 102) with true. cbv iota. cbn [map r_to_prim]. destruct fs; reflexivity.
+  - apply all_nodes_map in H as [Hn Hf]. cbn [raw_dec r_to_prim]. rewrite map_map. cbn [fst snd].
+    rewrite (map_ext_Forall _ (fun kv => (raw_dec (fst kv), raw_dec (snd kv)))).
+    + rewrite dict_of_list_distinct; [reflexivity|]. apply kdistinct_map; [apply inj_of_abs, abs_raw_dec | exact Hn].
+    + clear -IH Hf. induction IH as [|kv kvs [H1 H2] _ IHk]; inversion Hf as [|? ? [G1 G2] Hf']; subst; constructor; auto.
+      now rewrite H1, H2.
+  - cbn [raw_dec]. destruct xs; reflexivity.
+  - reflexivity.
+  - reflexivity.
+Qed.
+
+(* to_dict of the decoded object is the reference JSON *)
+Lemma raw_todict d :
+  wf (plutus_ref d) -> top_not_empty_list d = true -> hollow_keys d = true -> nodup_keys d = true ->
+  no_list_keys d = true ->
+  m_todict d = Ok (json_of d).
+Proof.
+  intros W Ht Hh Hn Hk. unfold m_todict. rewrite raw_from_cbor_ref by assumption. cbn [bind].
+  rewrite r_to_prim_dec' by assumption. now apply r_dict_dec.
+Qed.
+
+Lemma atom_hashable k : atom k = true -> hashable false (raw_json k) = true.
+Proof.
+  destruct k as [| | |z|b]; cbn [atom raw_json]; try discriminate; intros _; [reflexivity|].
+  destruct (32 <? length b)%nat; reflexivity.
+Qed.
+
+Lemma r_undict_json : forall d, atom_keys d = true -> nodup_keys d = true -> r_undict (json_of d) = Ok (raw_json d).
+Proof.
+  unfold atom_keys, nodup_keys.
+  induction d as [i fs IH|kvs IH|xs IH|z|b] using data_ind'; intros Ha Hn.
+  - apply all_nodes_constr in Ha as [_ Hf]. apply all_nodes_constr in Hn as [_ Hg].
+    cbn [json_of r_undict raw_json]. rewrite (mapM_map2 _ _ raw_json) by exact (Forall_mp _ _ _ (Forall_mp _ _ _ IH Hf) Hg).
+    cbn [bind]. rewrite get_tag_spec. destruct (tag_spec i); reflexivity.
+  - apply all_nodes_map in Ha as [Hk Hf]. apply all_nodes_map in Hn as [Hd Hg].
+    cbn [json_of r_undict raw_json].
+    rewrite (mapM_map2 _ _ (fun kv => (raw_json (fst kv), raw_json (snd kv)))).
+    + cbn [bind]. rewrite dict_of_list_distinct; [reflexivity|].
+      apply kdistinct_map; [apply inj_of_abs, abs_raw_json | exact Hd].
+    + cbn [n_atom_keys] in Hk. rewrite forallb_Forall in Hk. clear Hd.
+      induction IH as [|kv kvs [H1 H2] _ IHk]; inversion Hf as [|? ? [F1 F2] Hf']; inversion Hg as [|? ? [G1 G2] Hg'];
+        inversion Hk as [|? ? K1 Hk']; subst; constructor; auto.
+      cbn [fst snd]. rewrite H1, H2 by assumption. cbn [bind]. now rewrite atom_hashable.
+  - apply all_nodes_list in Ha as [_ Hf]. apply all_nodes_list in Hn as [_ Hg].
+    cbn [json_of r_undict raw_json]. rewrite (mapM_map2 _ _ raw_json) by exact (Forall_mp _ _ _ (Forall_mp _ _ _ IH Hf) Hg).
+    reflexivity.
+  - reflexivity.
+  - reflexivity.
+Qed.
+
+Lemma dumps_bytes_json b : dumps (if (32 <? length b)%nat then PBStr b else PBytes b) = Ok (ref_bytes b).
+Proof.
+  unfold ref_bytes. destruct (32 <? length b)%nat eqn:E; cbn [dumps].
+  - destruct (64 <? length b)%nat eqn:F, (length b <=? 64)%nat eqn:G; try reflexivity; bconv; lia.
+  - destruct (length b <=? 64)%nat eqn:G; [reflexivity | bconv; lia].
+Qed.
+
+(* the object built from the JSON is already canonical *)
+Lemma dumps_jcanon : forall d, jcanon d = true -> ints_ok d = true -> dumps (raw_json d) = Ok (plutus_ref d).
+Proof.
+  unfold ints_ok.
+  induction d as [i fs IH|kvs IH|xs IH|z|b] using data_ind'; intros Hj Hi.
+  - apply all_nodes_constr in Hi as [Hn Hf]. cbn [n_int_ok] in Hn. bconv.
+    cbn [jcanon] in Hj. cbn [raw_json plutus_ref]. destruct (tag_spec i) as [t|].
+    + destruct fs; [reflexivity | discriminate].
+    + destruct fs as [|f fs]; [discriminate|]. rewrite forallb_Forall in Hj.
+      cbn [dumps mapM bind]. rewrite py_int_small by assumption.
+      rewrite (mapM_map2 _ _ plutus_ref) by exact (Forall_mp _ _ _ (Forall_mp _ _ _ IH Hj) Hf). reflexivity.
+  - apply all_nodes_map in Hi as [_ Hf]. cbn [jcanon] in Hj. rewrite forallb_Forall in Hj.
+    cbn [raw_json plutus_ref dumps].
+    rewrite (dumps_pairs _ _ (fun kv => plutus_ref (fst kv)) (fun kv => plutus_ref (snd kv))); [reflexivity|].
+    clear -IH Hf Hj. induction IH as [|kv kvs [H1 H2] _ IHk]; inversion Hf as [|? ? [G1 G2] Hf'];
+      inversion Hj as [|? ? J1 Hj']; subst; constructor; auto.
+    apply andb_true_iff in J1 as [J1 J2]. auto.
+  - apply all_nodes_list in Hi as [_ Hf]. cbn [jcanon] in Hj. destruct xs as [|x xs]; [discriminate|].
+    rewrite forallb_Forall in Hj. cbn [raw_json plutus_ref dumps].
+    rewrite (mapM_map2 _ _ plutus_ref) by exact (Forall_mp _ _ _ (Forall_mp _ _ _ IH Hj) Hf). reflexivity.
+  - cbn [all_nodes n_int_ok] in Hi. cbn [raw_json plutus_ref dumps]. f_equal. apply py_int_ref. bconv. lia.
+  - cbn [raw_json plutus_ref]. apply dumps_bytes_json.
+Qed.
+
+Lemma atom_jcanon k : atom k = true -> jcanon k = true.
+Proof. destruct k; cbn; try discriminate; reflexivity. Qed.
+Lemma atom_r_to_prim_json k : atom k = true -> r_to_prim (raw_json k) = raw_json k.
+Proof.
+  destruct k as [| | |z|b]; cbn [atom raw_json]; try discriminate; intros _; [reflexivity|].
+  destruct (32 <? length b)%nat; reflexivity.
+Qed.
+
+(* ... or to_primitive repairs it *)
+Lemma dumps_jsound : forall d, jsound d = true -> ints_ok d = true -> atom_keys d = true -> nodup_keys d = true ->
+  dumps (r_to_prim (raw_json d)) = Ok (plutus_ref d).
+Proof.
+  unfold atom_keys, nodup_keys.
+  induction d as [i fs IH|kvs IH|xs IH|z|b] using data_ind'; intros Hj Hi Ha Hn.
+  - pose proof Hi as Hi0. unfold ints_ok in Hi. apply all_nodes_constr in Hi as [Hb Hf]. cbn [n_int_ok] in Hb. bconv.
+    apply all_nodes_constr in Ha as [_ Hg]. apply all_nodes_constr in Hn as [_ Hh].
+    cbn [jsound] in Hj. cbn [raw_json plutus_ref]. destruct (tag_spec i) as [t|] eqn:T.
+    + destruct fs as [|f fs]; [reflexivity|]. rewrite forallb_Forall in Hj.
+      assert (M : mapM dumps (map r_to_prim (map raw_json (f :: fs))) = Ok (map plutus_ref (f :: fs))).
+      { rewrite map_map. apply mapM_map2.
+        exact (Forall_mp _ _ _ (Forall_mp _ _ _ (Forall_mp _ _ _ (Forall_mp _ _ _ IH Hj) Hf) Hg) Hh). }
+      remember (f :: fs) as l eqn:El.
+      assert (Hl : exists y r, map raw_json l = y :: r) by (subst l; cbn [map]; eauto).
+      destruct Hl as (y & r & Er). rewrite Er in *. cbn [r_to_prim].
+      destruct (tag_spec_ranges _ _ T) as [_ Hne]. destruct (t =? 102) eqn:Q; [bconv; contradiction|].
+      cbn [dumps]. rewrite M. cbn [bind]. subst l. reflexivity.
+    + destruct fs as [|f fs]; [discriminate|]. rewrite forallb_Forall in Hj.
+      assert (M : mapM dumps (map raw_json (f :: fs)) = Ok (map plutus_ref (f :: fs))).
+      { apply mapM_map2. eapply Forall_impl; [|exact (Forall_and Hj Hf)]. cbn. intros a [J1 J2]. now apply dumps_jcanon. }
+      remember (map raw_json (f :: fs)) as l eqn:El.
+      cbn [r_to_prim]. change (102 =? 102) with true. cbv iota. cbn [map r_to_prim].
+      cbn [dumps mapM bind]. rewrite M, py_int_small by assumption. reflexivity.
+  - pose proof Hi as Hi0. unfold ints_ok in Hi. apply all_nodes_map in Hi as [_ Hf].
+    apply all_nodes_map in Ha as [Hk Hg]. apply all_nodes_map in Hn as [Hd Hh].
+    cbn [jsound] in Hj. rewrite forallb_Forall in Hj. cbn [n_atom_keys] in Hk. rewrite forallb_Forall in Hk.
+    cbn [raw_json plutus_ref r_to_prim]. rewrite map_map. cbn [fst snd].
+    rewrite (map_ext_Forall _ (fun kv => (raw_json (fst kv), r_to_prim (raw_json (snd kv))))).
+    2:{ eapply Forall_impl; [|exact Hk]. cbn. intros kv K. now rewrite atom_r_to_prim_json. }
+    rewrite dict_of_list_distinct.
+    2:{ apply (kdistinct_map raw_json (fun v => r_to_prim (raw_json v))); [apply inj_of_abs, abs_raw_json | exact Hd]. }
+    cbn [dumps].
+    rewrite (dumps_pairs _ _ (fun kv => plutus_ref (fst kv)) (fun kv => plutus_ref (snd kv))); [reflexivity|].
+    clear Hd Hi0. induction IH as [|kv kvs [H1 H2] _ IHk]; inversion Hf as [|? ? [F1 F2] Hf']; inversion Hg as [|? ? [G1 G2] Hg'];
+      inversion Hh as [|? ? [N1 N2] Hh']; inversion Hj as [|? ? J1 Hj']; inversion Hk as [|? ? K1 Hk']; subst; constructor; auto.
+    apply andb_true_iff in J1 as [J1 J2]. split; [|auto].
+    apply dumps_jcanon; [now apply atom_jcanon | exact F1].
+  - unfold ints_ok in Hi. apply all_nodes_list in Hi as [_ Hf]. cbn [jsound] in Hj. destruct xs as [|x xs]; [discriminate|].
+    rewrite forallb_Forall in Hj. cbn [raw_json plutus_ref r_to_prim dumps].
+    rewrite (mapM_map2 _ _ plutus_ref); [reflexivity|].
+    eapply Forall_impl; [|exact (Forall_and Hj Hf)]. cbn. intros a [J1 J2]. now apply dumps_jcanon.
+  - unfold ints_ok in Hi. cbn [all_nodes n_int_ok] in Hi. cbn [raw_json plutus_ref r_to_prim dumps]. f_equal. apply py_int_ref. bconv. lia.
+  - cbn [raw_json plutus_ref].
+    replace (r_to_prim (if (32 <? length b)%nat then PBStr b else PBytes b)) with (if (32 <? length b)%nat then PBStr b else PBytes b)
+      by (destruct (32 <? length b)%nat; reflexivity).
+    apply dumps_bytes_json.
+Qed.
+
+Lemma raw_datum_ok_json d : top_bytes_le 32 d = true -> raw_datum_ok (raw_json d) = true.
+Proof.
+  destruct d as [i fs|kvs|xs|z|b]; cbn [top_bytes_le raw_json]; try reflexivity.
+  - intros _. destruct (tag_spec i); reflexivity.
+  - intros H. destruct (32 <? length b)%nat eqn:E; [bconv; lia | reflexivity].
+Qed.
+
+(* C18_json: RawPlutusData.from_dict of the reference JSON, encoded *)
+Lemma raw_fromdict d :
+  jsound d = true -> ints_ok d = true -> atom_keys d = true -> nodup_keys d = true -> top_bytes_le 32 d = true ->
+  m_fromdict d = Ok (plutus_bytes d).
+Proof.
+  intros Hj Hi Ha Hn Hb. unfold m_fromdict, raw_from_dict. rewrite r_undict_json by assumption. cbn [bind].
+  unfold to_cbor. cbn [validate]. rewrite raw_datum_ok_json by assumption. cbn [to_prim].
+  rewrite dumps_jsound by assumption. reflexivity.
+Qed.
+
+(* the full JSON route: decode, to_dict, (to_json, from_json,) from_dict, encode *)
+Lemma raw_json_route d :
+  wf (plutus_ref d) -> top_not_empty_list d = true -> nodup_keys d = true -> atom_keys d = true ->
+  ints_ok d = true -> top_bytes_le 32 d = true -> jsound d = true ->
+  m_json_rt d = OB (Ok (plutus_bytes d)).
+Proof.
+  intros W Ht Hn Ha Hi Hb Hj.
+  assert (Hh : hollow_keys d = true /\ no_list_keys d = true).
+  { unfold hollow_keys, no_list_keys, atom_keys in *. clear -Ha.
+    induction d as [i fs IH|kvs IH|xs IH|z|b] using data_ind'.
+    - apply all_nodes_constr in Ha as [_ Hf]. pose proof (Forall_mp _ _ _ IH Hf) as F. cbn [all_nodes n_hollow_keys n_no_list_keys].
+      split; apply forallb_Forall; (eapply Forall_impl; [|exact F]); cbn; intros a [A1 A2]; assumption.
+    - apply all_nodes_map in Ha as [Hk Hf]. cbn [all_nodes n_hollow_keys n_no_list_keys n_atom_keys] in *.
+      rewrite forallb_Forall in Hk.
+      assert (K1 : forallb (fun kv => hollow (fst kv)) kvs = true).
+      { apply forallb_Forall. eapply Forall_impl; [|exact Hk]. cbn. intros [[]]; cbn; try discriminate; reflexivity. }
+      assert (K2 : forallb (fun kv => match fst kv with List _ => false | _ => true end) kvs = true).
+      { apply forallb_Forall. eapply Forall_impl; [|exact Hk]. cbn. intros [[]]; cbn; try discriminate; reflexivity. }
+      rewrite K1, K2. cbn [andb].
+      assert (F : Forall (fun kv => (all_nodes n_hollow_keys (fst kv) = true /\ all_nodes n_no_list_keys (fst kv) = true)
+                                  /\ (all_nodes n_hollow_keys (snd kv) = true /\ all_nodes n_no_list_keys (snd kv) = true)) kvs).
+      { clear -IH Hf. induction IH as [|kv kvs [H1 H2] _ IHk]; inversion Hf as [|? ? [G1 G2] Hf']; subst; constructor; auto. }
+      split; apply forallb_Forall; (eapply Forall_impl; [|exact F]); cbn; intros a [[A1 A2] [A3 A4]]; rewrite ?A1, ?A2, ?A3, ?A4; reflexivity.
+    - apply all_nodes_list in Ha as [_ Hf]. pose proof (Forall_mp _ _ _ IH Hf) as F. cbn [all_nodes n_hollow_keys n_no_list_keys].
+      split; apply forallb_Forall; (eapply Forall_impl; [|exact F]); cbn; intros a [A1 A2]; assumption.
+    - split; reflexivity.
+    - split; reflexivity. }
+  destruct Hh as [Hh Hk].
+  unfold m_json_rt. rewrite raw_todict by assumption.
+  f_equal. now apply raw_fromdict.
+Qed.
+
+(* ================================================================== typed PlutusData: encode *)
+Lemma kdistinct_of_nodupb (g : pv -> pv) kvs :
+  nodupb pv_eqb (map fst kvs) = true -> kdistinct (map (fun kv => (fst kv, g (snd kv))) kvs).
+Proof.
+  induction kvs as [|[k v] kvs IH]; cbn [map nodupb kdistinct fst snd]; [trivial|].
+  intros H. apply andb_true_iff in H as [H1 H2]. split; [|auto].
+  apply Forall_forall. intros x Hx. apply in_map_iff in Hx as ([k' v'] & <- & Hin). cbn [fst snd].
+  destruct (pv_eqb k k') eqn:E; [|reflexivity]. apply negb_true_iff in H1.
+  assert (X : existsb (pv_eqb k) (map fst kvs) = true).
+  { apply existsb_exists. exists k'. split; [|exact E]. apply in_map_iff. now exists (k', v'). }
+  congruence.
+Qed.
+
+Lemma dumps_bstr b : dumps (PBStr b) = Ok (ref_bytes b).
+Proof.
+  unfold ref_bytes. cbn [dumps].
+  destruct (64 <? length b)%nat eqn:F, (length b <=? 64)%nat eqn:G; try reflexivity; bconv; lia.
+Qed.
+
+Lemma rawc_elim w : rawc w = true -> w = raw_canon (abs w) /\ ints_ok (abs w) = true /\ nodup_keys (abs w) = true.
+Proof.
+  unfold rawc. intros H. apply andb_true_iff in H as [H H3]. apply andb_true_iff in H as [H1 H2].
+  apply pv_eqb_sound in H1. auto.
+Qed.
+
+Lemma typed_dumps : forall v, canon_typed v = true -> dumps (to_prim v) = Ok (plutus_ref (abs v)).
+Proof.
+  unfold canon_typed.
+  induction v as [z|b|b|xs IH|xs IH|kvs IH|t v IH|id fts fs IH|w IH] using pv_ind'; cbn [vshape]; intros H;
+    apply andb_true_iff in H as [Hn Hc]; unfold n_typed in Hn; repeat (apply andb_true_iff in Hn as [Hn ?]).
+  - cbn [to_prim abs plutus_ref dumps]. f_equal. apply py_int_ref. cbn [v_int_ok] in Hn. bconv. lia.
+  - cbn [to_prim abs plutus_ref dumps]. unfold ref_bytes. cbn [v_short_bytes] in *.
+    match goal with Hs : (length b <=? 64)%nat = true |- _ => now rewrite Hs end.
+  - cbn [to_prim abs plutus_ref]. apply dumps_bstr.
+  - destruct xs as [|x xs]; [reflexivity|]. cbn [v_no_pylist] in *. discriminate.
+  - destruct xs as [|x xs]; [cbn [v_no_empty_ilist] in *; discriminate|].
+    rewrite forallb_Forall in Hc. cbn [to_prim abs plutus_ref dumps].
+    rewrite (mapM_map2 _ _ (fun y => plutus_ref (abs y))) by exact (Forall_mp _ _ _ IH Hc).
+    cbn [bind map ref_seq]. now rewrite map_map.
+  - rewrite forallb_Forall in Hc. cbn [v_nodup v_atom_keys] in *.
+    match goal with Ha : forallb _ kvs = true |- _ => rewrite forallb_Forall in Ha; rename Ha into Hk end.
+    cbn [to_prim abs plutus_ref].
+    rewrite (map_ext_Forall _ (fun kv => (fst kv, to_prim (snd kv)))).
+    2:{ eapply Forall_impl; [|exact Hk]. cbn. intros [k w] K. cbn in *. destruct k; try discriminate; reflexivity. }
+    rewrite dict_of_list_distinct by (now apply kdistinct_of_nodupb).
+    cbn [dumps].
+    rewrite (mapM_map2 _ _ (fun kv => (plutus_ref (abs (fst kv)), plutus_ref (abs (snd kv))))).
+    + cbn [bind]. now rewrite map_map.
+    + clear -IH Hc Hk. induction IH as [|kv kvs [H1 H2] _ IHk]; inversion Hc as [|? ? C1 Hc']; inversion Hk as [|? ? K1 Hk'];
+        subst; constructor; auto.
+      apply andb_true_iff in C1 as [C1 C2]. cbn [fst snd].
+      assert (E : to_prim (fst kv) = fst kv) by (destruct (fst kv); try discriminate; reflexivity).
+      rewrite <- E at 1. rewrite H1, H2 by assumption. reflexivity.
+  - (* bare CBORTag inside an IndefiniteList / Datum field: canonical raw data *)
+    match goal with Hr : v_rawc (PTag t v) = true |- _ => cbn [v_rawc] in Hr; apply rawc_elim in Hr as (E & Hi & Hd) end.
+    rewrite E at 1. rewrite to_prim_canon, dumps_canon by assumption. reflexivity.
+  - rewrite forallb_Forall in Hc. cbn [v_int_ok] in Hn. bconv.
+    cbn [to_prim abs plutus_ref]. rewrite get_tag_spec.
+    change (match map to_prim fs with [] => PList [] | _ :: _ => PIList (map to_prim fs) end) with (seqv (map to_prim fs)).
+    rewrite (dumps_tagged id _ (ref_seq (map (fun y => plutus_ref (abs y)) fs))); [now rewrite map_map|assumption|].
+    apply dumps_seqv_map. exact (Forall_mp _ _ _ IH Hc).
+  - match goal with Hr : v_rawc (PRaw w) = true |- _ => cbn [v_rawc] in Hr; apply rawc_elim in Hr as (E & Hi & Hd) end.
+    cbn [to_prim abs]. rewrite E at 1. rewrite r_to_prim_canon, dumps_canon by assumption. reflexivity.
+Qed.
+
+(* C18_typed: a canonically shaped typed object encodes to the reference bytes of its content *)
+Lemma typed_enc x : canon_typed x = true -> validate x = true -> to_cbor x = Ok (plutus_bytes (abs x)).
+Proof. intros Hc Hv. unfold to_cbor. rewrite Hv, typed_dumps by assumption. reflexivity. Qed.
+
+(* ================================================================== typed PlutusData: from_cbor *)
+Definition arr_of (id : N) (fts : list ty) (w : pv) : res pv :=
+  match w with
+  | PList xs | PIList xs => do vals <- zipM restore fts xs; mk_obj id fts vals
+  | _ => Err E_Deser
+  end.
+
+Lemma restore_cls_tag id fts tg val : tg <> 102 ->
+  restore (TCls id fts) (PTag tg val)
+  = match get_tag id with Some t' => if t' =? tg then arr_of id fts val else Err E_Deser | None => Err E_Deser end.
+Proof. intros H. cbn [restore]. destruct (tg =? 102) eqn:Q; [bconv; contradiction|]. reflexivity. Qed.
+
+Lemma restore_cls_102 id fts c w :
+  restore (TCls id fts) (PTag 102 (PList [c; w]))
+  = if negb (pv_eqb c (PInt (Z.of_N id))) then Err E_Deser else arr_of id fts w.
+Proof. reflexivity. Qed.
+
+Lemma arr_of_seqv id fts xs : arr_of id fts (seqv xs) = do vals <- zipM restore fts xs; mk_obj id fts vals.
+Proof. destruct xs; reflexivity. Qed.
+
+Lemma restore_cls_mismatch idk ftsk id ds : idk <> id ->
+  restore (TCls idk ftsk) (raw_dec (Constr id ds)) = Err E_Deser.
+Proof.
+  intros Hne. cbn [raw_dec]. destruct (tag_spec id) as [t|] eqn:T.
+  - rewrite restore_cls_tag by apply (tag_spec_ranges _ _ T). rewrite get_tag_spec.
+    destruct (tag_spec idk) as [t'|] eqn:T'; [|reflexivity].
+    destruct (t' =? t) eqn:Q; [|reflexivity]. bconv. subst t'. exfalso. apply Hne. eapply tag_spec_inj; eauto.
+  - rewrite restore_cls_102. cbn [pv_eqb]. destruct (Z.of_N id =? Z.of_N idk)%Z eqn:Q; [bconv; lia | reflexivity].
+Qed.
+
+Lemma rt_exact_bytes t b : rt_exact t (PBytes b) = true -> (length b <=? 64)%nat = true.
+Proof. destruct t; cbn; try discriminate; auto. Qed.
+
+Lemma forall2b_length {A B} (f : A -> B -> bool) a : forall b, forall2b f a b = true -> length a = length b.
+Proof.
+  induction a as [|x a IH]; intros [|y b] H; cbn in H; try discriminate; [reflexivity|].
+  apply andb_true_iff in H as [_ H]. cbn. f_equal. auto.
+Qed.
+
+Lemma zipM_exact fts :
+  Forall (fun t => forall v, rt_exact t v = true -> restore t (raw_dec (abs v)) = Ok v) fts ->
+  forall fs, forall2b rt_exact fts fs = true ->
+  zipM restore fts (map (fun x => raw_dec (abs x)) fs) = Ok fs.
+Proof.
+  induction 1 as [|t fts Ht _ IH]; intros [|f fs] H; cbn in H; try discriminate; [reflexivity|].
+  apply andb_true_iff in H as [H1 H2]. cbn [map zipM]. rewrite Ht, IH by assumption. reflexivity.
+Qed.
+
+Lemma mk_obj_exact id fts fs : forall2b rt_exact fts fs = true -> mk_obj id fts fs = Ok (PObj id fts fs).
+Proof.
+  intros H. unfold mk_obj. rewrite <- (forall2b_length _ _ _ H).
+  destruct (length fts <? length fts)%nat eqn:Q; [bconv; lia|].
+  assert (E : existsb (fun v => match v with PBytes b => (64 <? length b)%nat | _ => false end) fs = false).
+  { clear Q. revert fs H. induction fts as [|t fts IH]; intros [|f fs] H; cbn in H; try discriminate; [reflexivity|].
+    apply andb_true_iff in H as [H1 H2]. cbn [existsb]. rewrite (IH _ H2), orb_false_r.
+    destruct f; try reflexivity. apply rt_exact_bytes in H1. bconv.
+    match goal with |- (64 <? ?n)%nat = false => destruct (64 <? n)%nat eqn:Q; [bconv; lia | reflexivity] end. }
+  now rewrite E.
+Qed.
+
+Lemma dec_exact_elim w : dec_exact w = true -> raw_dec (abs w) = w.
+Proof. apply pv_eqb_sound. Qed.
+
+Lemma restore_exact : forall t v, rt_exact t v = true -> restore t (raw_dec (abs v)) = Ok v.
+Proof.
+  induction t as [| | |t IH|kt vt IHk IHv|id fts IH|ts IH| |] using ty_ind'; intros v H.
+  - destruct v; try discriminate. reflexivity.
+  - destruct v; try discriminate. reflexivity.
+  - destruct v; try discriminate. reflexivity.
+  - destruct v as [| | |[|x xs]| | | | |]; try discriminate. reflexivity.
+  - destruct v as [| | | | |kvs| | |]; try discriminate. cbn [rt_exact] in H.
+    apply andb_true_iff in H as [H1 H2]. rewrite forallb_Forall in H1.
+    cbn [abs raw_dec restore]. rewrite map_map. cbn [fst snd].
+    rewrite (mapM_map2 _ _ (fun kv => (fst kv, snd kv))).
+    + cbn [bind]. rewrite (map_ext_Forall _ (fun kv => kv)) by (apply Forall_forall; intros [] _; reflexivity).
+      rewrite map_id. rewrite dict_of_list_distinct; [reflexivity|].
+      pose proof (kdistinct_of_nodupb (fun x => x) kvs H2) as D.
+      rewrite (map_ext_Forall _ (fun kv => kv)) in D by (apply Forall_forall; intros [] _; reflexivity).
+      now rewrite map_id in D.
+    + eapply Forall_impl; [|exact H1]. cbn. intros [k w] E. cbn [fst snd] in *.
+      apply andb_true_iff in E as [E1 E2]. rewrite IHk, IHv by assumption. reflexivity.
+  - destruct v as [| | | | | | |id' fts' fs|]; try discriminate. cbn [rt_exact] in H.
+    apply andb_true_iff in H as [H H3]. apply andb_true_iff in H as [H1 H2]. bconv. subst id'.
+    assert (fts = fts').
+    { eapply list_eqb_sound; [|exact H2]. apply Forall_forall. intros x _ y. apply ty_eqb_sound. }
+    subst fts'.
+    assert (A : arr_of id fts (seqv (map raw_dec (map abs fs))) = Ok (PObj id fts fs)).
+    { rewrite arr_of_seqv, map_map, zipM_exact by assumption. cbn [bind]. now apply mk_obj_exact. }
+    cbn [abs raw_dec]. destruct (tag_spec id) as [t|] eqn:T.
+    + rewrite restore_cls_tag by apply (tag_spec_ranges _ _ T). rewrite get_tag_spec, T, N.eqb_refl. exact A.
+    + rewrite restore_cls_102. cbn [pv_eqb]. rewrite Z.eqb_refl. exact A.
+  - destruct v as [| | | | | | |id' fts' fs|]; try discriminate. cbn [rt_exact] in H. cbn [restore].
+    remember (PObj id' fts' fs) as v eqn:Ev.
+    assert (Ab : exists ds, abs v = Constr id' ds) by (subst v; cbn [abs]; eauto).
+    destruct Ab as (ds & Ab).
+    induction IH as [|a ts Ha _ IHts]; [discriminate|].
+    destruct a as [| | | | |idk ftsk| | |]; try discriminate.
+    cbn [firstM]. destruct (idk =? id') eqn:Q.
+    + now rewrite Ha.
+    + bconv. rewrite Ab, restore_cls_mismatch by assumption.
+      change (String.eqb E_Deser E_Deser) with true. cbv iota. rewrite <- Ab. now apply IHts.
+  - destruct v as [| | | |[|x xs]| | | |]; try discriminate. cbn [rt_exact] in H. rewrite forallb_Forall in H.
+    cbn [abs raw_dec]. rewrite map_map.
+    rewrite (map_id_Forall (fun y => raw_dec (abs y))) by (eapply Forall_impl; [|exact H]; apply dec_exact_elim).
+    reflexivity.
+  - destruct v as [z|b| | |xs|kvs| | |w]; try discriminate; cbn [rt_exact] in H.
+    + reflexivity.
+    + reflexivity.
+    + apply dec_exact_elim in H. rewrite H. reflexivity.
+    + apply dec_exact_elim in H. rewrite H. reflexivity.
+    + destruct w as [| | | | | |t w| |]; try discriminate. apply dec_exact_elim in H. cbn [abs]. cbn [abs] in H.
+      rewrite H. reflexivity.
+Qed.
+
+(* C18_typed_rt: decoding the reference bytes of a typed object returns the object, and encoding it gives the bytes back *)
+Lemma typed_rt id fts fs :
+  let x := PObj id fts fs in
+  rt_exact (TCls id fts) x = true -> canon_typed x = true -> validate x = true ->
+  wf (plutus_ref (abs x)) -> hollow_keys (abs x) = true -> nodup_keys (abs x) = true ->
+  typed_from_cbor id fts (plutus_bytes (abs x)) = Ok x /\ to_cbor x = Ok (plutus_bytes (abs x)).
+Proof.
+  intros x He Hc Hv W Hh Hn. split; [|now apply typed_enc].
+  unfold typed_from_cbor, plutus_bytes. rewrite decode_enc by assumption. cbn [bind].
+  rewrite loads_ref by assumption. cbn [bind]. now apply restore_exact.
+Qed.
+
+(* ================================================================== raw data: Python-list build *)
+Lemma abs_raw_py : forall d, abs (raw_py d) = d.
+Proof.
+  induction d as [i fs IH|kvs IH|xs IH|z|b] using data_ind'; cbn [raw_py].
+  - rewrite abs_tagged. cbn [abs unlist]. rewrite map_map. f_equal. now apply map_id_Forall.
+  - cbn [abs]. rewrite map_map. cbn [fst snd]. f_equal. apply map_id_Forall.
+    eapply Forall_impl; [|exact IH]. cbn. intros [k v] [H1 H2]. cbn in *. now rewrite H1, H2.
+  - cbn [abs]. rewrite map_map. f_equal. now apply map_id_Forall.
+  - reflexivity.
+  - destruct (length b <=? 64)%nat; reflexivity.
+Qed.
+
+Lemma pynorm_py : forall d, nodup_keys d = true -> pynorm (raw_py d) = raw_py d.
+Proof.
+  unfold nodup_keys.
+  induction d as [i fs IH|kvs IH|xs IH|z|b] using data_ind'; intros H.
+  - apply all_nodes_constr in H as [_ Hf]. cbn [raw_py].
+    assert (E : map pynorm (map raw_py fs) = map raw_py fs).
+    { rewrite map_map. apply map_ext_Forall. exact (Forall_mp _ _ _ IH Hf). }
+    destruct (tag_spec i); cbn [pynorm map]; now rewrite E.
+  - apply all_nodes_map in H as [Hn Hf]. cbn [raw_py pynorm]. rewrite map_map. cbn [fst snd].
+    rewrite (map_ext_Forall _ (fun kv => (raw_py (fst kv), raw_py (snd kv)))).
+    + rewrite dict_of_list_distinct; [reflexivity|]. apply kdistinct_map; [apply inj_of_abs, abs_raw_py | exact Hn].
+    + clear -IH Hf. induction IH as [|kv kvs [H1 H2] _ IHk]; inversion Hf as [|? ? [G1 G2] Hf']; subst; constructor; auto.
+      now rewrite H1, H2.
+  - apply all_nodes_list in H as [_ Hf]. cbn [raw_py pynorm]. rewrite map_map. f_equal.
+    apply map_ext_Forall. exact (Forall_mp _ _ _ IH Hf).
+  - reflexivity.
+  - cbn [raw_py]. destruct (length b <=? 64)%nat; reflexivity.
+Qed.
+
+(* RawPlutusData.to_primitive turns the Python-list build into the canonical shape *)
+Lemma r_to_prim_py : forall d, nodup_keys d = true -> r_to_prim (raw_py d) = raw_canon d.
+Proof.
+  unfold nodup_keys.
+  induction d as [i fs IH|kvs IH|xs IH|z|b] using data_ind'; intros H.
+  - apply all_nodes_constr in H as [_ Hf]. cbn [raw_py raw_canon].
+    assert (E : map r_to_prim (map raw_py fs) = map raw_canon fs).
+    { rewrite map_map. apply map_ext_Forall. exact (Forall_mp _ _ _ IH Hf). }
+    destruct (tag_spec i) as [t|] eqn:T.
+    + destruct fs as [|f fs]; [reflexivity|]. remember (f :: fs) as l.
+      assert (Hl : exists y r, map raw_py l = y :: r) by (subst l; cbn [map]; eauto).
+      destruct Hl as (y & r & Er). rewrite Er in *. cbn [r_to_prim].
+      destruct (tag_spec_ranges _ _ T) as [_ Hne]. destruct (t =? 102) eqn:Q; [bconv; contradiction|].
+      rewrite E. subst l. reflexivity.
+    + cbn [r_to_prim]. change (102 =? 102) with true. cbv iota. cbn [map r_to_prim].
+      destruct fs as [|f fs]; [reflexivity|]. remember (f :: fs) as l.
+      assert (Hl : exists y r, map raw_py l = y :: r) by (subst l; cbn [map]; eauto).
+      destruct Hl as (y & r & Er). rewrite Er in *. cbv iota.
+      change (r_to_prim y :: map r_to_prim r) with (map r_to_prim (y :: r)). rewrite E. subst l. reflexivity.
+  - apply all_nodes_map in H as [Hn Hf]. cbn [raw_py raw_canon r_to_prim]. rewrite map_map. cbn [fst snd].
+    rewrite (map_ext_Forall _ (fun kv => (raw_canon (fst kv), raw_canon (snd kv)))).
+    + rewrite dict_of_list_distinct; [reflexivity|]. apply kdistinct_map; [apply inj_of_abs, abs_raw_canon | exact Hn].
+    + clear -IH Hf. induction IH as [|kv kvs [H1 H2] _ IHk]; inversion Hf as [|? ? [G1 G2] Hf']; subst; constructor; auto.
+      now rewrite H1, H2.
+  - apply all_nodes_list in H as [_ Hf]. cbn [raw_py raw_canon].
+    assert (E : map r_to_prim (map raw_py xs) = map raw_canon xs).
+    { rewrite map_map. apply map_ext_Forall. exact (Forall_mp _ _ _ IH Hf). }
+    destruct xs as [|x xs]; [reflexivity|]. remember (x :: xs) as l.
+    assert (Hl : exists y r, map raw_py l = y :: r) by (subst l; cbn [map]; eauto).
+    destruct Hl as (y & r & Er). rewrite Er in *. cbn [r_to_prim]. rewrite E. subst l. reflexivity.
+  - reflexivity.
+  - cbn [raw_py raw_canon]. destruct (length b <=? 64)%nat; reflexivity.
+Qed.
+
+Lemma raw_py_canon : forall d, pycanon d = true -> raw_py d = raw_canon d.
+Proof.
+  induction d as [i fs IH|kvs IH|xs IH|z|b] using data_ind'; cbn [pycanon]; intros H.
+  - destruct fs; [reflexivity | discriminate].
+  - rewrite forallb_Forall in H. cbn [raw_py raw_canon]. f_equal. apply map_ext_Forall.
+    clear -IH H. induction IH as [|kv kvs [H1 H2] _ IHk]; inversion H as [|? ? J Hj]; subst; constructor; auto.
+    apply andb_true_iff in J as [J1 J2]. now rewrite H1, H2.
+  - destruct xs; [reflexivity | discriminate].
+  - reflexivity.
+  - reflexivity.
+Qed.
+
+Lemma raw_build_py d :
+  ints_ok d = true -> nodup_keys d = true -> top_bytes_le 64 d = true -> top_not_empty_list d = true ->
+  pysound d = true ->
+  to_cbor (PRaw (pynorm (raw_py_top d))) = Ok (plutus_bytes d).
+Proof.
+  intros Hi Hn Hb Hl Hp.
+  destruct d as [i fs|kvs|xs|z|b].
+  1,2,4,5: cbn [raw_py_top]; rewrite pynorm_py by assumption; unfold to_cbor.
+  - assert (V : validate (PRaw (raw_py (Constr i fs))) = true) by (cbn [raw_py validate]; destruct (tag_spec i); reflexivity).
+    rewrite V. cbn [to_prim]. rewrite r_to_prim_py, dumps_canon by assumption. reflexivity.
+  - assert (V : validate (PRaw (raw_py (Map kvs))) = true) by reflexivity.
+    rewrite V. cbn [to_prim]. rewrite r_to_prim_py, dumps_canon by assumption. reflexivity.
+  - assert (V : validate (PRaw (raw_py (I z))) = true) by reflexivity.
+    rewrite V. cbn [to_prim]. rewrite r_to_prim_py, dumps_canon by assumption. reflexivity.
+  - assert (V : validate (PRaw (raw_py (Bs b))) = true) by (cbn in Hb; cbn [raw_py]; rewrite Hb; reflexivity).
+    rewrite V. cbn [to_prim]. rewrite r_to_prim_py, dumps_canon by assumption. reflexivity.
+  - destruct xs as [|x xs]; [discriminate|]. cbn [pysound] in Hp. rewrite forallb_Forall in Hp.
+    unfold nodup_keys in Hn. apply all_nodes_list in Hn as [_ Hn]. unfold ints_ok in Hi. apply all_nodes_list in Hi as [_ Hi].
+    cbn [raw_py_top]. remember (x :: xs) as l.
+    assert (E : pynorm (PIList (map raw_py l)) = PIList (map raw_canon l)).
+    { cbn [pynorm]. rewrite map_map. f_equal. apply map_ext_Forall.
+      eapply Forall_impl; [|exact (Forall_and Hp Hn)]. cbn. intros a [A1 A2]. rewrite pynorm_py by assumption.
+      now apply raw_py_canon. }
+    rewrite E. unfold to_cbor. cbn [validate raw_datum_ok to_prim r_to_prim dumps].
+    rewrite (mapM_map2 _ _ plutus_ref).
+    + subst l. reflexivity.
+    + eapply Forall_impl; [|exact Hi]. cbn. intros a A. now apply dumps_canon.
+Qed.
+
+Lemma atom_keys_ok (F : data -> pv) :
+  (forall k, atom k = true -> hashable false (F k) = true) ->
+  (forall i fs, dict_keys_ok false (F (Constr i fs)) = forallb (fun f => dict_keys_ok false (F f)) fs) ->
+  (forall xs, dict_keys_ok false (F (List xs)) = forallb (fun f => dict_keys_ok false (F f)) xs) ->
+  (forall kvs, F (Map kvs) = PDict (map (fun kv => (F (fst kv), F (snd kv))) kvs)) ->
+  (forall z, dict_keys_ok false (F (I z)) = true) -> (forall b, dict_keys_ok false (F (Bs b)) = true) ->
+  forall d, atom_keys d = true -> dict_keys_ok false (F d) = true.
+Proof.
+  intros Hat Hc Hl Hm Hi Hb. unfold atom_keys.
+  induction d as [i fs IH|kvs IH|xs IH|z|b] using data_ind'; intros H.
+  - apply all_nodes_constr in H as [_ Hf]. rewrite Hc. apply forallb_Forall. exact (Forall_mp _ _ _ IH Hf).
+  - apply all_nodes_map in H as [Hk Hf]. rewrite Hm. cbn [dict_keys_ok]. rewrite forallb_Forall. apply Forall_map.
+    cbn [n_atom_keys] in Hk. rewrite forallb_Forall in Hk. cbn [fst snd].
+    clear -IH Hf Hk Hat. induction IH as [|kv kvs [H1 H2] _ IHk]; inversion Hf as [|? ? [G1 G2] Hf']; inversion Hk as [|? ? K Hk'];
+      subst; constructor; auto.
+    now rewrite Hat, H1, H2.
+  - apply all_nodes_list in H as [_ Hf]. rewrite Hl. apply forallb_Forall. exact (Forall_mp _ _ _ IH Hf).
+  - apply Hi.
+  - apply Hb.
+Qed.
+
+Lemma forallb_map {A B} (p : B -> bool) (g : A -> B) l : forallb p (map g l) = forallb (fun x => p (g x)) l.
+Proof. induction l; cbn; congruence. Qed.
+
+Lemma dict_keys_ok_seqv xs : dict_keys_ok false (seqv xs) = forallb (dict_keys_ok false) xs.
+Proof. destruct xs; reflexivity. Qed.
+
+Lemma dict_keys_ok_canon d : atom_keys d = true -> dict_keys_ok false (raw_canon d) = true.
+Proof.
+  apply atom_keys_ok; try reflexivity.
+  - intros [| | |z|b]; cbn [atom raw_canon]; try discriminate; intros _; [reflexivity|]. destruct (length b <=? 64)%nat; reflexivity.
+  - intros i fs. cbn [raw_canon]. destruct (tag_spec i); cbn [dict_keys_ok forallb]; rewrite dict_keys_ok_seqv, forallb_map, ?andb_true_r; reflexivity.
+  - intros xs. cbn [raw_canon]. now rewrite dict_keys_ok_seqv, forallb_map.
+  - intros b. cbn [raw_canon]. destruct (length b <=? 64)%nat; reflexivity.
+Qed.
+
+Lemma dict_keys_ok_py d : atom_keys d = true -> dict_keys_ok false (raw_py d) = true.
+Proof.
+  apply atom_keys_ok; try reflexivity.
+  - intros [| | |z|b]; cbn [atom raw_py]; try discriminate; intros _; [reflexivity|]. destruct (length b <=? 64)%nat; reflexivity.
+  - intros i fs. cbn [raw_py]. destruct (tag_spec i); cbn [dict_keys_ok forallb]; rewrite forallb_map, ?andb_true_r; reflexivity.
+  - intros xs. cbn [raw_py dict_keys_ok]. now rewrite forallb_map.
+  - intros b. cbn [raw_py]. destruct (length b <=? 64)%nat; reflexivity.
+Qed.
+
+Lemma dict_keys_ok_py_top d : atom_keys d = true -> dict_keys_ok false (raw_py_top d) = true.
+Proof.
+  intros H. destruct d as [i fs|kvs|xs|z|b]; try (now apply dict_keys_ok_py).
+  cbn [raw_py_top dict_keys_ok]. rewrite forallb_map. unfold atom_keys in H. apply all_nodes_list in H as [_ Hf].
+  apply forallb_Forall. eapply Forall_impl; [|exact Hf]. cbn. intros a A. now apply dict_keys_ok_py.
+Qed.
+
+(* ================================================================== regions are sound: outside every known region the model
+   (hence, by correspondence, the implementation) gives exactly what the property demands *)
+Ltac fr H :=
+  unfold first_region in H; cbn [find fst snd negb app] in H;
+  repeat match type of H with
+         | context [if negb ?b then _ else _] =>
+             let E := fresh "P" in destruct b eqn:E; cbn [find fst snd negb] in H; [|exfalso; discriminate H]
+         end.
+
+Theorem raw_region_sound route d :
+  wf (plutus_ref d) -> (route <= 8)%nat -> raw_region route d = RG_none -> raw_model route d = raw_expect route d.
+Proof.
+  intros W Hr H.
+  destruct route as [|[|[|[|[|[|[|[|[|]]]]]]]]]; try lia; cbn [raw_region] in H; fr H; cbn [raw_model raw_expect].
+  - unfold build_raw. rewrite dict_keys_ok_canon, raw_build_canon by assumption. reflexivity.
+  - unfold build_raw. rewrite dict_keys_ok_py_top, raw_build_py by assumption. reflexivity.
+  - now rewrite raw_reenc.
+  - now rewrite raw_reenc.
+  - now rewrite raw_todict.
+  - now apply raw_json_route.
+  - now apply raw_json_route.
+  - now rewrite raw_fromdict.
+  - now rewrite raw_reenc.
+Qed.
+
+Lemma pynorm_typed : forall v, canon_typed v = true -> pynorm v = v.
+Proof.
+  unfold canon_typed.
+  induction v as [z|b|b|xs IH|xs IH|kvs IH|t v IH|id fts fs IH|w IH] using pv_ind'; cbn [vshape]; intros H;
+    apply andb_true_iff in H as [Hn Hc]; unfold n_typed in Hn; repeat (apply andb_true_iff in Hn as [Hn ?]);
+    try reflexivity.
+  - rewrite forallb_Forall in Hc. cbn [pynorm]. f_equal. apply map_id_Forall. exact (Forall_mp _ _ _ IH Hc).
+  - rewrite forallb_Forall in Hc. cbn [pynorm]. f_equal. apply map_id_Forall. exact (Forall_mp _ _ _ IH Hc).
+  - rewrite forallb_Forall in Hc. cbn [v_nodup] in *. cbn [pynorm].
+    rewrite (map_id_Forall (fun kv => (pynorm (fst kv), pynorm (snd kv)))).
+    + rewrite dict_of_list_distinct; [reflexivity|].
+      match goal with Hd : nodupb pv_eqb (map fst kvs) = true |- _ => pose proof (kdistinct_of_nodupb (fun x => x) kvs Hd) as D end.
+      rewrite (map_ext_Forall _ (fun kv => kv)) in D by (apply Forall_forall; intros [] _; reflexivity).
+      now rewrite map_id in D.
+    + clear -IH Hc. induction IH as [|kv kvs [H1 H2] _ IHk]; inversion Hc as [|? ? C1 Hc']; subst; constructor; auto.
+      apply andb_true_iff in C1 as [C1 C2]. destruct kv. cbn [fst snd] in *. now rewrite H1, H2.
+  - match goal with Hr : v_rawc (PTag t v) = true |- _ => cbn [v_rawc] in Hr; apply rawc_elim in Hr as (E & Hi & Hd) end.
+    rewrite E. now apply pynorm_canon.
+  - rewrite forallb_Forall in Hc. cbn [pynorm]. f_equal. apply map_id_Forall. exact (Forall_mp _ _ _ IH Hc).
+  - match goal with Hr : v_rawc (PRaw w) = true |- _ => cbn [v_rawc] in Hr; apply rawc_elim in Hr as (E & Hi & Hd) end.
+    cbn [pynorm]. f_equal. rewrite E. now apply pynorm_canon.
+Qed.
+
+Lemma vshape_and p q v : vshape (fun x => p x && q x) v = vshape p v && vshape q v.
+Proof.
+  induction v as [z|b|b|xs IH|xs IH|kvs IH|t v IH|id fts fs IH|w IH] using pv_ind'; cbn [vshape]; try ring.
+  - assert (E : forallb (vshape (fun x => p x && q x)) xs = forallb (vshape p) xs && forallb (vshape q) xs).
+    { induction IH as [|f fs Hf _ IHf]; cbn; [reflexivity|]. rewrite Hf, IHf. ring. }
+    rewrite E. ring.
+  - assert (E : forallb (vshape (fun x => p x && q x)) xs = forallb (vshape p) xs && forallb (vshape q) xs).
+    { induction IH as [|f fs Hf _ IHf]; cbn; [reflexivity|]. rewrite Hf, IHf. ring. }
+    rewrite E. ring.
+  - assert (E : forallb (fun kv => vshape (fun x => p x && q x) (fst kv) && vshape (fun x => p x && q x) (snd kv)) kvs
+               = forallb (fun kv => vshape p (fst kv) && vshape p (snd kv)) kvs
+                 && forallb (fun kv => vshape q (fst kv) && vshape q (snd kv)) kvs).
+    { induction IH as [|f fs [Hk Hv] _ IHf]; cbn; [reflexivity|]. rewrite Hk, Hv, IHf. ring. }
+    rewrite E. ring.
+  - assert (E : forallb (vshape (fun x => p x && q x)) fs = forallb (vshape p) fs && forallb (vshape q) fs).
+    { induction IH as [|f fs' Hf _ IHf]; cbn; [reflexivity|]. rewrite Hf, IHf. ring. }
+    rewrite E. ring.
+Qed.
+
+Lemma typed_region_canon route t x : (route <= 1)%nat -> typed_region route t x = RG_none -> canon_typed x = true.
+Proof.
+  intros Hr H. unfold canon_typed, n_typed. rewrite !vshape_and.
+  destruct route as [|[|]]; try lia; cbn [typed_region] in H; fr H;
+    repeat match goal with E : _ = true |- _ => rewrite E; clear E end; reflexivity.
+Qed.
+
+Theorem typed_region_sound route t x :
+  (route <= 1)%nat -> validate x = true -> typed_region route t x = RG_none -> typed_model route t x = typed_expect route x.
+Proof.
+  intros Hr Hv H. pose proof (typed_region_canon _ _ _ Hr H) as Hc.
+  unfold typed_model. destruct (cls_of t) as [id fts].
+  destruct route as [|[|]]; try lia; cbn [typed_expect]; rewrite pynorm_typed, typed_enc by assumption; reflexivity.
+Qed.
+
+(* ================================================================== long-bytes guard *)
+Lemma long_guard id fts vals b :
+  (length fts <= length vals)%nat -> In (PBytes b) vals -> (64 < length b)%nat -> mk_obj id fts vals = Err E_InvArg.
+Proof.
+  intros Hl Hin Hb. unfold mk_obj. destruct (length vals <? length fts)%nat eqn:Q; [bconv; lia|].
+  assert (E : existsb (fun v => match v with PBytes b => (64 <? length b)%nat | _ => false end) vals = true).
+  { apply existsb_exists. exists (PBytes b). split; [assumption|]. destruct (64 <? length b)%nat eqn:F; [reflexivity | bconv; lia]. }
+  now rewrite E.
+Qed.
+
+(* ================================================================== anchor, non-vacuity, witnesses *)
+(* the Haskell-generated fixture of /repo/test/resources/haskell/PlutusData (PlutusTx.toData, cborg) *)
+Definition fix_d : data :=
+  Constr 1 [Bs (hx "c2ff616e11299d9094ce0a7eb5b7284b705147a822f4ffbd471f971a"); I 1643235300000;
+            Constr 8 [Constr 130 [I 123; Bs (hx "31323334"); List [I 4; I 5; I 6];
+                                  Map [(I 1, Bs (hx "31")); (I 2, Bs (hx "32"))]]];
+            Constr 9 []].
+Example fixture_bytes :
+  plutus_bytes fix_d = hx "d87a9f581cc2ff616e11299d9094ce0a7eb5b7284b705147a822f4ffbd471f971a1b0000017e9874d2a0d905019fd8668218829f187b44313233349f040506ffa2014131024132ffffd9050280ff".
+Proof. vm_compute. reflexivity. Qed.
+
+Lemma fix_wf : wf (plutus_ref fix_d).
+Proof. cbv. repeat split; try reflexivity; try discriminate. Qed.
+
+Example ex_raw_build : to_cbor (PRaw (pynorm (raw_canon fix_d))) = Ok (plutus_bytes fix_d).
+Proof. apply raw_build_canon; reflexivity. Qed.
+Example ex_raw_reenc : m_dec fix_d = Ok (plutus_bytes fix_d).
+Proof. apply raw_reenc; try reflexivity. apply fix_wf. Qed.
+Example ex_raw_todict : m_todict fix_d = Ok (json_of fix_d).
+Proof. apply raw_todict; try reflexivity. apply fix_wf. Qed.
+Example ex_raw_json : m_json_rt fix_d = OB (Ok (plutus_bytes fix_d)).
+Proof. apply raw_json_route; try reflexivity. apply fix_wf. Qed.
+
+(* the same content as typed dataclasses: VestingParam(beneficiary, deadline, testa: Union[BigTest, LargestTest], testb) *)
+Definition T_test := TCls 130 [TInt; TBytes; TList TInt; TDict TInt TBytes].
+Definition T_big := TCls 8 [T_test].
+Definition T_largest := TCls 9 [].
+Definition T_vest := [TBytes; TInt; TUnion [T_big; T_largest]; TUnion [T_big; T_largest]].
+Definition fix_x (lst : pv) : pv :=
+  PObj 1 T_vest
+    [PBytes (hx "c2ff616e11299d9094ce0a7eb5b7284b705147a822f4ffbd471f971a"); PInt 1643235300000;
+     PObj 8 [T_test] [PObj 130 [TInt; TBytes; TList TInt; TDict TInt TBytes]
+                        [PInt 123; PBytes (hx "31323334"); lst;
+                         PDict [(PInt 1, PBytes (hx "31")); (PInt 2, PBytes (hx "32"))]]];
+     PObj 9 [] []].
+Example ex_typed_abs : abs (fix_x (PIList [PInt 4; PInt 5; PInt 6])) = fix_d.
+Proof. reflexivity. Qed.
+Example ex_typed_enc : to_cbor (fix_x (PIList [PInt 4; PInt 5; PInt 6])) = Ok (plutus_bytes fix_d).
+Proof. apply (typed_enc (fix_x (PIList [PInt 4; PInt 5; PInt 6]))); reflexivity. Qed.
+Example ex_typed_rt :
+  let x := fix_x (PList []) in
+  typed_from_cbor 1 T_vest (plutus_bytes (abs x)) = Ok x /\ to_cbor x = Ok (plutus_bytes (abs x)).
+Proof. apply typed_rt; try reflexivity. cbv. repeat split; try reflexivity; try discriminate. Qed.
+
+(* ----- witnesses: the property fails on the pinned tree in each known region (model evaluated by vm_compute;
+   the same inputs are replayed on the implementation by the correspondence run) ----- *)
+Definition differs (r : res bytes) (d : data) : Prop := exists bs, r = Ok bs /\ bs <> plutus_bytes d.
+Ltac witness := eexists; split; [vm_compute; reflexivity | vm_compute; discriminate].
+
+Definition b65 : bytes := repeat x01 65.
+Lemma chunk_refuted : differs (m_dec (List [Bs b65])) (List [Bs b65]).
+Proof. witness. Qed.
+Lemma json_nested_refuted : differs (m_fromdict (List [Constr 0 [I 1]])) (List [Constr 0 [I 1]]).
+Proof. witness. Qed.
+Lemma json_empty_list_refuted : differs (m_fromdict (Constr 0 [List []])) (Constr 0 [List []]).
+Proof. witness. Qed.
+Lemma json_empty_102_refuted : differs (m_fromdict (Constr 200 [])) (Constr 200 []).
+Proof. witness. Qed.
+Lemma untag_refuted : untag 1500 0 = UWhole 227 /\ untag_spec 1500 0 = URaise /\ tag_spec 227 = None.
+Proof. vm_compute. auto. Qed.
+Lemma top_empty_list_refuted : raw_from_cbor (plutus_bytes (List [])) = Err E_Deser.
+Proof. vm_compute. reflexivity. Qed.
+Lemma top_bytestring_refuted : m_fromdict (Bs (repeat x01 33)) = Err E_Type.
+Proof. vm_compute. reflexivity. Qed.
+Lemma key_decode_refuted : m_dec (Map [(Constr 0 [I 1], I 1)]) = Err E_Type.
+Proof. vm_compute. reflexivity. Qed.
+Lemma key_build_refuted : m_fromdict (Map [(Constr 0 [], I 1)]) = Err E_Type.
+Proof. vm_compute. reflexivity. Qed.
+Lemma key_list_to_dict_refuted : m_todict (Map [(List [], I 1)]) = Err E_Type.
+Proof. vm_compute. reflexivity. Qed.
+Lemma dup_keys_refuted : differs (m_dec (Map [(I 1, I 2); (I 1, I 3)])) (Map [(I 1, I 2); (I 1, I 3)]).
+Proof. witness. Qed.
+Lemma bigint_refuted : differs (m_dec (List [I (2 ^ 512)])) (List [I (2 ^ 512)]).
+Proof. witness. Qed.
+Lemma norecurse_build_refuted : differs (to_cbor (PRaw (raw_py_top (List [List [I 1]])))) (List [List [I 1]]).
+Proof. witness. Qed.
+
+Definition x_pylist := PObj 1 [TList TInt] [PList [PInt 1; PInt 2]].
+Definition x_ilist := PObj 1 [TList TInt] [PIList [PInt 1; PInt 2]].
+Lemma typed_pylist_refuted : differs (to_cbor x_pylist) (abs x_pylist).
+Proof. witness. Qed.
+Lemma typed_empty_ilist_refuted : differs (to_cbor (PObj 1 [TList TInt] [PIList []])) (Constr 1 [List []]).
+Proof. witness. Qed.
+Lemma typed_list_rt_refuted :
+  to_cbor x_ilist = Ok (plutus_bytes (abs x_ilist)) /\
+  differs (do y <- typed_from_cbor 1 [TList TInt] (plutus_bytes (abs x_ilist)); to_cbor y) (abs x_ilist).
+Proof. split; [vm_compute; reflexivity | witness]. Qed.
+Lemma typed_json_bytes_refuted :
+  let x := PObj 0 [TBStr] [PBStr [x61]] in
+  to_cbor x = Ok (plutus_bytes (abs x)) /\
+  (do j <- t_dict x; do y <- t_undict 0 [TBStr] j; to_cbor y) = Err E_Type.
+Proof. split; vm_compute; reflexivity. Qed.
+Lemma typed_json_nested_refuted :
+  let x := PObj 5 [TList (TList (TCls 2 [TInt]))] [PIList [PIList [PObj 2 [TInt] [PInt 3]]]] in
+  to_cbor x = Ok (plutus_bytes (abs x)) /\
+  (do j <- t_dict x; do y <- t_undict 5 [TList (TList (TCls 2 [TInt]))] j; to_cbor y) = Err E_Deser.
+Proof. split; vm_compute; reflexivity. Qed.
+Lemma typed_long_in_container_refuted :
+  let x := PObj 1 [TList TBytes] [PIList [PBytes b65]] in validate x = true /\ differs (to_cbor x) (abs x).
+Proof. split; [vm_compute; reflexivity | witness]. Qed.
+Lemma typed_to_dict_tag_refuted : t_dict (PObj 3 [TIList] [PIList [PTag 121 (PList [])]]) = Err E_Type.
+Proof. vm_compute. reflexivity. Qed.
+Lemma typed_datum_chunk_refuted :
+  let x := PObj 3 [TIList] [PIList [PBStr b65]] in
+  to_cbor x = Ok (plutus_bytes (abs x)) /\
+  differs (do y <- typed_from_cbor 3 [TIList] (plutus_bytes (abs x)); to_cbor y) (abs x).
+Proof. split; [vm_compute; reflexivity | witness]. Qed.
+
+(* corollaries stated in props/C18.v *)
+Lemma hash_preserved (H : bytes -> bytes) d :
+  wf (plutus_ref d) -> top_not_empty_list d = true -> hollow_keys d = true -> nodup_keys d = true ->
+  ints_ok d = true -> no_long_bytes d = true ->
+  (do b <- m_dec d; Ok (H b)) = Ok (H (plutus_bytes d)).
+Proof. intros W Ht Hh Hn Hi Hl. now rewrite raw_reenc. Qed.
+
+Lemma json_partial d :
+  jsound d = true -> ints_ok d = true -> atom_keys d = true -> nodup_keys d = true -> top_bytes_le 32 d = true ->
+  m_fromdict d = Ok (plutus_bytes d)
+  /\ (wf (plutus_ref d) -> top_not_empty_list d = true -> m_json_rt d = OB (Ok (plutus_bytes d))).
+Proof.
+  intros Hj Hi Ha Hn Hb. split; [now apply raw_fromdict|]. intros W Ht. now apply raw_json_route.
 Qed.
